@@ -2,7 +2,9 @@
 
 A data-driven TABLE of differentiable entry points (ENTRIES) is probed with one generic oracle
 (`check_probe`): scalarise the output with a generated weight tensor, compare the directional
-derivative from torch.autograd.grad with central finite differences along generated directions.
+derivative from torch.autograd.grad with central finite differences along generated directions.  Every table has a "point"
+dimension: generic (hash noise) values, or the special point of the entry (zero / identity initialised parameters, exactly
+all-zero fields, identity matrices, identical images, no-op argument forms; see POINTS below).
 """
 from __future__ import annotations
 
@@ -18,9 +20,18 @@ from vlib.core import EPS32, EPS64, Facet, Skip, Violation
 
 PROPERTY = "C20"
 MANIFEST = {
-    "text": "Generated-input search (Hypothesis) over a data-driven table of 464 differentiable entry points: 16 transform "
+    "text": "Generated-input search (Hypothesis) over a data-driven table of 465 differentiable entry points, each evaluated at GENERIC values and "
+            "- for the 370 entries that have one - at its SPECIAL point (the documented initial / degenerate-but-smooth input: "
+            "freshly constructed zero / identity initialised transformation parameters incl. inverses, composites, linked inverses and "
+            "callables predicting exactly the initial values; exactly all-zero flow / velocity / coefficient fields for expv (scale "
+            "None, 0.5, 1, 2, -1, inverse=True, steps 0..5), ExpFlow and its inverse copies, FlowFields.exp(scale, steps), "
+            "compose_flows, compose_svfs, logv, warp_image / warp_points / warp_grid / sample_flow, B-spline evaluation, Jacobians, "
+            "regularisers; zero angles, identity quaternion / matrices, unit scales, zero offsets for the rotation and homogeneous "
+            "helpers; identical source and target images for the similarity losses; no-op argument forms of crop / pad / "
+            "center_crop / center_pad / downsample / upsample / grid_resample / grid_resize), where a value-dependent shortcut "
+            "('exp(0) = 0', 'identity: nothing to do') keeps every forward value but changes the derivative: 16 transform "
             "classes x {__call__, grid call, disp, disp on another grid, inverse()(...), points, PointSetTransformer} w.r.t. their "
-            "torch.nn.Parameters (generic non-identity values) and w.r.t. the points; the same classes with parameters predicted by "
+            "torch.nn.Parameters and w.r.t. the points; the same classes with parameters predicted by "
             "a callable module (gradient w.r.t. the callable's own Parameters and its conditioning input), given as plain tensors "
             "(constructor / data_()), and through a linked inverse created once (inverse(link=True), .inv, update_buffers); "
             "SequentialTransform / MultiLevelTransform with non-rigid and nested members; GenericSpatialTransform (8 models x 8 affine "
@@ -46,7 +57,8 @@ MANIFEST = {
             "clearly non-zero (detach / rounding / integer cast), the output is not locally constant in a leaf, a second "
             "forward/backward on the same module gives the same gradient (fresh graph), after an in-place step of the leaves (an "
             "optimiser step) a third forward/backward gives the derivative at the NEW point (buffers recomputed), autograd in-place "
-            "errors are violations. Every entry is probed by a seed-independent floor plus generated cases; the self-test fails "
+            "errors are violations. Every entry is probed by a seed-independent floor (at generic values AND at its special point) plus "
+            "generated cases (1 in 4 at the special point); the self-test fails "
             "(exit 2) when a public name of losses.functional, losses, core.functional, modules or spatial has neither an entry nor "
             "a justified exclusion (EXCLUDED). Exploration, not proof.",
     "note": "Trusted: nothing of autograd - the reference is the finite difference of the same forward function, whose accuracy "
@@ -55,10 +67,29 @@ MANIFEST = {
             "counted. Forward values are not checked here (other properties do). Tolerance: rel*max(|ad|,|fd|) + "
             "8*eps(dtype)*sum|w*out|/h (round-off of the difference quotient). The checker is self-tested on a known-good "
             "composite and module and on wrong-backward / detach / rounding / integer-cast / in-place / kink / NaN-gradient / "
-            "stale-after-step functions.",
+            "stale-after-step / float32-staircase / zero-input-shortcut functions. A direction is used only if the difference "
+            "quotients of steps h and h/2 agree within HALF the tolerance (their difference estimates the error of the finer one when "
+            "the second-order term is only piecewise smooth, as for exp(v) at v = 0) and the second differences are consistent. The "
+            "round-off floor uses the magnitude of the perturbed outputs as well (outputs that are exactly zero at a special point).",
     "technique": "property-based testing (Hypothesis) with a finite-difference derivative oracle over a data-driven table of entry points",
 }
 ASSUMPTIONS = [
+    "special points are generated only where the operation is differentiable there and not legitimately constant in a leaf, decided "
+    "from the formula: not for |x| at 0 (mae / l1, L1Norm, Sparsity, total_variation_loss, grad_loss with odd p or q not in {1, 2}), "
+    "sqrt / norm at 0 (angle-axis and quaternion log / exp conversions, inverse_consistency_loss, point distances), acos at 1 (3D "
+    "euler_rotation_angles), linear interpolation of non-constant data exactly at its knots (flow / transform leaves of warps on the "
+    "same grid: generated with a source grid of another size, remaining knot hits are dropped by the kink detector and counted as "
+    "skips), bilinear forms with a zero factor (lie_bracket; the weights W of a callable at zero conditioning input; masks / weights / "
+    "norm of a zero residual at identical images), sample_flow w.r.t. coordinates of a zero field, constant images w.r.t. coordinates",
+    "GenericSpatialTransform(flip_grid_coords=True) with predicted 3D Euler angles that are exactly zero returns a NaN gradient "
+    "(euler_rotation_angles: acos at 1, the gimbal lock of the ZXZ / XZX decomposition): a kink of that parameterisation, not generated "
+    "(recorded as an observation, not asserted)",
+    "at identical images the similarity losses are at their optimum: the true gradient is zero, the comparison is against the round-off "
+    "floor only (for the float32 correlation / overlap ratios 4 x the single-rounding floor: three accumulated sums), such cases are "
+    "not counted as non-trivial; they assert that the output requires grad and that the gradient is finite and zero within round-off",
+    "CompositeTransform.disp() / tensor() of a composite with a non-rigid member evaluate the members at float32 grid.coords(): the "
+    "float64 result is a float32 staircase and the float32 step would cross interpolation knots, so a direction is used only if "
+    "the difference quotient of a 512 times smaller step still agrees (otherwise dropped and counted); not a defect",
     "inputs are generic (hash noise) and constructed >= 0.05 samples away from interpolation knots / clamping and reflection "
     "borders where the sampling coordinates are inputs; derived sampling positions (transformed grids, scaling-and-squaring "
     "iterates) are generic and protected by the h vs h/2 and second-difference reliability test",
@@ -117,7 +148,8 @@ class Probe:
               on the same object is required to give the same gradient (optimiser iteration 2)
     """
 
-    def __init__(self, leaves, evaluate, scale, stateful=False, labels=(), record_only=None, rule=None, abs_mag=0.0):
+    def __init__(self, leaves, evaluate, scale, stateful=False, labels=(), record_only=None, rule=None, abs_mag=0.0, staircase=False):
+        self.staircase = bool(staircase)  # float64 result computed through float32 coordinates: see _staircase()
         self.abs_mag = float(abs_mag)  # magnitude of intermediate values when the output is a difference (1 - ratio)
         self.rule = rule  # "f32": the operation computes in float32 internally although it returns the input dtype
         self.leaves = list(leaves)
@@ -188,6 +220,8 @@ class _Eval:
         self.p = probe
         self.w = w
         self.base = [leaf.detach().clone() for leaf in probe.leaves]
+        self.mag = 0.0  # max over the evaluations of sum|w * out|: magnitude of the PERTURBED outputs (round-off floor at
+        #                 special points where the unperturbed output is exactly zero)
 
     def set(self, t: float, d):
         with torch.no_grad():
@@ -197,10 +231,21 @@ class _Eval:
     def __call__(self, t: float, d) -> float:
         self.set(t, d)
         with torch.no_grad():
-            o = _flat(self.p.evaluate())
-            value = float((self.w * o.double()).sum())  # before the leaves are restored: `o` may alias a leaf
+            o = _flat(self.p.evaluate()).double()
+            value = float((self.w * o).sum())  # before the leaves are restored: `o` may alias a leaf
+            self.mag = max(self.mag, float((self.w.abs() * o.abs()).sum()))
         self.set(0.0, d)
         return value
+
+
+def _staircase(probe, F, h, d, c2, tol, floor) -> bool:
+    """Probes marked `staircase` return a float64 result that is computed through float32 coordinates (a staircase at the 1e-7
+    level): the difference quotient of a step 512 times smaller must still agree, else the direction is unreliable."""
+    if not probe.staircase:
+        return False
+    tau = h / 512
+    c4 = (F(tau, d) - F(-tau, d)) / (2 * tau)
+    return abs(c4 - c2) > tol + 512 * floor
 
 
 def check_probe(entry: str, probe: Probe, key: int) -> dict:
@@ -230,7 +275,6 @@ def check_probe(entry: str, probe: Probe, key: int) -> dict:
         if not bool(torch.isfinite(g).all()):
             raise Violation(f"grad_nonfinite:{entry}", f"gradient w.r.t. leaf {i} has non-finite entries (finite forward value)")
     F = _Eval(probe, w)
-    unit = fmag / probe.scale  # natural unit of a directional derivative
     f0 = F(0.0, [torch.zeros_like(p) for p in leaves])
 
     # -- leaves whose gradient is identically zero: does the function depend on them at all?
@@ -241,6 +285,8 @@ def check_probe(entry: str, probe: Probe, key: int) -> dict:
         d = [x / max(1e-30, float(d[i].abs().max())) for x in d]
         hc = 1e-3 * probe.scale if f64 else h
         vals = [F(hc, d), F(-hc, d), F(hc / 2, d), F(-hc / 2, d)]
+        fmag = max(fmag, F.mag)
+        unit = fmag / probe.scale  # natural unit of a directional derivative
         if all(v == f0 for v in vals):
             raise Violation(f"locally_constant:{entry}",
                             f"the scalarised output is bitwise unchanged by perturbations of +-{hc:.3g} and half of it of leaf {i} "
@@ -259,9 +305,13 @@ def check_probe(entry: str, probe: Probe, key: int) -> dict:
         fp, fm, fp2, fm2 = F(h, d), F(-h, d), F(h / 2, d), F(-h / 2, d)
         c1, c2 = (fp - fm) / (2 * h), (fp2 - fm2) / h
         j1, j2 = (fp - 2 * f0 + fm) / h, (fp2 - 2 * f0 + fm2) / (h / 2)
+        fmag = max(fmag, F.mag)  # outputs that are exactly zero at a special point: round-off of the perturbed values
+        unit = fmag / probe.scale  # natural unit of a directional derivative
         floor = KNOISE * eps * fmag / h
         tol = rel * max(abs(ad), abs(c1), abs(c2)) + floor
-        if abs(c1 - c2) > tol or abs(2 * j2 - j1) > tol + 4 * floor:
+        # |c1 - c2| estimates the error of c2 itself when the truncation error is linear in h (second-order terms that are only
+        # piecewise smooth, e.g. exp(v) at v = 0): half the tolerance keeps a margin of 2 (smooth terms: O(h^2), margin 6)
+        if abs(c1 - c2) > tol / 2 or abs(2 * j2 - j1) > tol + 4 * floor or _staircase(probe, F, h, d, c2, tol, floor):
             labels.append(f"fd_unreliable:{entry}")
             continue
         used += 1
@@ -308,9 +358,9 @@ def check_probe(entry: str, probe: Probe, key: int) -> dict:
             fp, fm, fp2, fm2 = F3(h, d), F3(-h, d), F3(h / 2, d), F3(-h / 2, d)
             c1, c2 = (fp - fm) / (2 * h), (fp2 - fm2) / h
             j1, j2 = (fp - 2 * f03 + fm) / h, (fp2 - 2 * f03 + fm2) / (h / 2)
-            floor = KNOISE * eps * fmag / h
+            floor = KNOISE * eps * max(fmag, F3.mag) / h
             tol = rel * max(abs(ad), abs(c1), abs(c2)) + floor
-            if abs(c1 - c2) <= tol and abs(2 * j2 - j1) <= tol + 4 * floor:
+            if abs(c1 - c2) <= tol / 2 and abs(2 * j2 - j1) <= tol + 4 * floor and not _staircase(probe, F3, h, d, c2, tol, floor):
                 if abs(ad - c2) > tol:
                     raise Violation(f"grad_mismatch_after_step:{entry}",
                                     f"after an in-place step of {step:.3g} of the leaves: autograd {ad:.9g} vs central difference "
@@ -389,6 +439,14 @@ def selftest():
     z = torch.zeros(3, 4, dtype=torch.float64).requires_grad_(True)
     _expect("skip", lambda: check_probe("t", Probe([z], lambda: z.abs() + z, 1.0), 2))
     _expect("grad_nonfinite", lambda: check_probe("t", Probe([z], lambda: torch.where(z > 1, z.sqrt(), z * 0 + 1) * (z + 1), 1.0), 2))
+    xs = leaf(9)  # float64 result computed through a float32 intermediate: every direction is dropped, not reported
+    _expect("skip", lambda: check_probe("t", Probe([xs], lambda: (xs * 3.0).float().double().sin(), 1.0, staircase=True), 2))
+    z0 = torch.zeros(3, 4, dtype=torch.float64).requires_grad_(True)  # special points: exactly zero output / zero gradient
+    r = check_probe("zero_out", Probe([z0], lambda: z0 * 2.0 + z0 * z0.abs(), 1.0), 2)
+    assert r["nontrivial"] and r["ratio"] < 0.5, r
+    r = check_probe("zero_grad", Probe([z0], lambda: (z0 * z0).cumsum(1), 1.0), 2)
+    assert not r["nontrivial"], r
+    _expect("grad_mismatch", lambda: check_probe("t", Probe([z0], lambda: z0 if not bool(z0.any()) else z0 * 2.0, 1.0), 2))
     p = torch.nn.Parameter(noise((3, 4), 7, 0.2, 1.0))
     mod = _StaleAfterStep(p)
     _expect("grad_mismatch_after_step", lambda: check_probe("t", Probe([p], mod, 1.0, stateful=True), 3))
@@ -485,6 +543,35 @@ def small_grids(D, ac=None):
     return gen.grids(D, min_size=4, max_size=8 if D == 2 else 6, mag=50.0, spacing_lo=0.2, spacing_hi=5.0, ac=ac)
 
 
+# ---- the "point" dimension of every table: besides generic (hash noise) values, the differentiated inputs are placed at the
+# documented initial / degenerate-but-smooth point of the entry ("special"): freshly constructed (zero / identity initialised)
+# transformation parameters, exactly all-zero flow / velocity / coefficient fields, identity matrices, zero angles, the identity
+# quaternion, unit scales, identical source and target images, no-op argument forms.  Value-dependent shortcuts taken at such a
+# point ("exp(0) = 0", "identity: nothing to do") keep every forward value; their derivative is what is checked here.  The
+# finite-difference side is unchanged: the leaves are perturbed around the special point along the generated directions.
+# Which entries have a special point (and which of their leaves) is decided by reading the formula: genuine kinks (|x| at 0,
+# sqrt / norm at 0, linear interpolation of non-constant data exactly at the knots, acos at +-1) and points where the function
+# is legitimately constant in a leaf (bilinear forms with a zero factor, weights of a zero residual) are not generated.
+POINTS = ["generic", "generic", "generic", "special"]
+
+
+def _is_special(case) -> bool:
+    return case.get("point", "generic") == "special"
+
+
+def _disp_mag(case) -> float:
+    """abs_mag of displacement outputs: at the identity point x' - x is exactly zero and computed by cancellation of cube
+    coordinates of magnitude 1 (round-off relative to 1, not to the perturbed displacement)."""
+    return 1.0 if _is_special(case) else 0.0
+
+
+def _draw_point(draw, has_special: bool, point=None) -> str:
+    """The point of a case: generated (1 in 4 special) or forced by `point`; 'generic' for entries without a special point."""
+    if not has_special:
+        return "generic"
+    return point or draw(st.sampled_from(POINTS))
+
+
 # =======================================================================================
 # facet 1: spatial transforms w.r.t. their Parameters and w.r.t. points
 
@@ -535,6 +622,25 @@ def build_transform(cls: str, grid, case):
     D, N, key = grid.ndim, case["N"], case["key"]
     dt = torch.float64 if case["dtype"] == "float64" else torch.float32
     T = getattr(S, cls)
+    if _is_special(case):
+        # the documented initial point: a freshly constructed transformation with optimisable parameters (zero displacement /
+        # velocity / coefficients, zero angles, identity quaternion / matrix, unit scales) - where every registration starts
+        kw = {}
+        if cls == "EulerRotation":
+            kw["order"] = case.get("order")
+        elif cls in ("DisplacementFieldTransform", "StationaryVelocityFieldTransform"):
+            if case["stride"] != 1:
+                kw["stride"] = case["stride"]
+            if not case.get("resize", True):
+                kw["resize"] = False
+        elif cls in BSPLINE:
+            kw.update(stride=case["ffd_stride"], transpose=case["transpose"])
+        if cls in SVF:
+            kw.update(steps=case["steps"], scale=case["vscale"])
+        if len(MEMBERS[cls]) == 1:
+            kw["params"] = True
+        t = T(grid, groups=N, **kw)  # (the composite linear classes create optimisable parameters by default)
+        return t.double() if dt == torch.float64 else t
     if cls == "Translation":
         t = T(grid, params=_elementary("translation", N, D, key, dt))
     elif cls == "EulerRotation":
@@ -585,7 +691,7 @@ def build_transform(cls: str, grid, case):
 
 
 @st.composite
-def transform_cases(draw, entry=None):
+def transform_cases(draw, entry=None, point=None):
     entry = entry or draw(st.sampled_from(TRANSFORM_ENTRIES))
     cls, method = entry.split(".", 1)
     D = 3 if cls in ONLY3D else draw(gen.dims())
@@ -604,6 +710,7 @@ def transform_cases(draw, entry=None):
         "to_axes": draw(st.sampled_from(["world", "grid", "cube", "cube_corners"])),
         "other": draw(st.booleans()), "batch_points": draw(st.booleans()),
         "disp_grid": draw(st.sampled_from(["resized", "other_ac", "subdomain"])), "resize": draw(st.sampled_from([True, True, False])),
+        "point": _draw_point(draw, True, point),
     }
     if case["other"]:
         case["grid2"] = draw(small_grids(D))
@@ -623,9 +730,9 @@ def build_transform_probe(case) -> Probe:
     dt = params[0].dtype
     m = ref.GridModel.from_desc(g)
     size = list(g["size"])
-    labels = [f"D={D}", f"N={N}", f"T={cls}", f"m={method}", case["dtype"]]
+    labels = [f"D={D}", f"N={N}", f"T={cls}", f"m={method}", case["dtype"], f"point={case.get('point', 'generic')}"]
     if cls in SVF:
-        labels.append(f"steps={case['steps']}")
+        labels += [f"steps={case['steps']}", f"vscale={case['vscale']}"]
     NP = N if case["batch_points"] else 1
     idx = safe_index_coords((NP, M), size, key + 21)
     pscale = 0.3 if cls in LINEAR else case["amp"]
@@ -636,7 +743,8 @@ def build_transform_probe(case) -> Probe:
         x = grid.coords(dtype=dt).unsqueeze(0)
         return Probe(params, lambda: t(x, grid=True), pscale, stateful=True, labels=labels)
     if method == "disp":
-        return Probe(params, lambda: t.update().disp(), pscale, stateful=True, labels=labels)
+        # identity parameters: the displacement x' - x is exactly zero and computed by cancellation of coordinates of magnitude 1
+        return Probe(params, lambda: t.update().disp(), pscale, stateful=True, labels=labels, abs_mag=_disp_mag(case))
     if method == "disp_other":  # displacement field sampled on another grid
         kind = case["disp_grid"]
         if kind == "resized":
@@ -647,7 +755,7 @@ def build_transform_probe(case) -> Probe:
             dg = make_grid(dict(g, size=[max(3, n - 1 - (i % 2)) for i, n in enumerate(size)], spacing=[0.8 * v for v in g["spacing"]]))
         labels.append(f"disp_grid={kind}")
         # resampling on a Grid object uses its float32 coordinates: float32 rule
-        return Probe(params, lambda: t.update().disp(dg), pscale, stateful=True, labels=labels, rule="f32")
+        return Probe(params, lambda: t.update().disp(dg), pscale, stateful=True, labels=labels, rule="f32", abs_mag=_disp_mag(case))
     if method == "inverse_call":
         x = torch.tensor(index_to_cube(idx, size, g["ac"]), dtype=dt)
         return Probe(params, lambda: t.inverse()(x), pscale, stateful=True, labels=labels)
@@ -692,7 +800,7 @@ IT_ENTRIES = [f"ImageTransformer[{c}].{w}" for c in LINEAR + NONRIGID for w in (
 
 
 @st.composite
-def image_transformer_cases(draw, entry=None):
+def image_transformer_cases(draw, entry=None, point=None):
     entry = entry or draw(st.sampled_from(IT_ENTRIES))
     cls = entry[entry.index("[") + 1: entry.index("]")]
     D = 3 if cls in ONLY3D else draw(gen.dims())
@@ -705,8 +813,12 @@ def image_transformer_cases(draw, entry=None):
         "C": draw(st.integers(1, 2)), "padding": draw(st.sampled_from(["border", "zeros", "reflect", 0.5])),
         "source": draw(st.sampled_from(["same", "same", "other"])), "NI": draw(st.sampled_from(["N", "one"])),
         "target": draw(st.sampled_from(["same", "same", "resized", "subdomain"])), "centers": draw(st.booleans()),
-        "flip_coords": draw(st.sampled_from([False, False, True])),
+        "flip_coords": draw(st.sampled_from([False, False, True])), "point": _draw_point(draw, True, point),
     }
+    if _is_special(case) and entry.endswith(".params"):
+        # identity transformation: with the same source and target grid every sampling position is an interpolation knot (a kink
+        # of linear interpolation in the position); a source grid of another size puts the positions between the knots
+        case["source"] = "other"
     if case["source"] == "other":
         case["grid2"] = draw(small_grids(D))
     return case
@@ -739,7 +851,7 @@ def build_image_transformer_probe(case) -> Probe:
     N = case["N"] if case["NI"] == "N" else 1
     img = noise((N, case["C"]) + tuple(source.shape), case["key"] + 31, 0.0, 1.0)
     labels = [f"D={case['D']}", f"T={cls}", f"wrt={wrt}", f"pad={case['padding']}", f"source={case['source']}", f"target={tk}",
-              f"centers={kwt['align_centers']}", f"flip={kwt['flip_coords']}"]
+              f"centers={kwt['align_centers']}", f"flip={kwt['flip_coords']}", f"point={case.get('point', 'generic')}"]
     if wrt == "params":
         return Probe(list(t.parameters()), lambda: it(img), 0.3 if cls in LINEAR else case["amp"], stateful=True, labels=labels)
     x = _leaf(img)
@@ -757,14 +869,24 @@ SAMPLING_ENTRIES = ["grid_sample.data", "grid_sample.coords", "sample_image.data
                     "warp_image.flow", "warp_image.grid", "Image.sample.data", "Image.sample.coords", "ImageBatch.sample.coords",
                     "sample_flow.flow", "sample_flow.coords", "warp_points.flow", "warp_points.coords", "warp_grid.flow",
                     "SampleImage.data", "SampleImage.coords", "grid_reshape.data", "Image.sample_grid.data",
-                    "ImageBatch.sample_grid.data", "FlowFields.exp.data", "FlowFields.warp_image.flow", "FlowFields.warp_image.image"]
+                    "ImageBatch.sample_grid.data", "FlowFields.exp.data", "FlowFields.exp.scaled", "FlowFields.warp_image.flow",
+                    "FlowFields.warp_image.image"]
+
+
+# special point: an exactly all-zero flow field.  Not generated where the flow is the leaf and non-constant data are then sampled
+# exactly at their knots on the same grid (FlowFields.warp_image.flow: kink) or where the output is legitimately constant in the
+# leaf (sample_flow.coords: a zero field sampled anywhere is zero); warp_image.flow samples at the points of another regular grid.
+SAMPLING_SPECIAL = ("warp_image.data", "warp_image.flow", "sample_flow.flow", "warp_points.flow", "warp_points.coords",
+                    "warp_grid.flow", "FlowFields.exp.data", "FlowFields.exp.scaled", "FlowFields.warp_image.image")
 
 
 @st.composite
-def sampling_cases(draw, entry=None):
+def sampling_cases(draw, entry=None, point=None):
     entry = entry or draw(st.sampled_from(SAMPLING_ENTRIES))
     D = draw(gen.dims())
     return {
+        "point": _draw_point(draw, entry in SAMPLING_SPECIAL, point), "steps": draw(st.integers(0, 4)),
+        "scale": draw(st.sampled_from([None, None, 0.5, 1.0, -1.0, 2.0])),
         "entry": entry, "D": D, "shape": draw(small_shapes(D, 3)), "oshape": draw(small_shapes(D, 2, 5, 4)),
         "N": draw(st.integers(1, 2)), "C": draw(st.integers(1, 3)), "ac": draw(st.booleans()),
         "padding": draw(st.sampled_from(["border", "zeros", "reflect", 0.5, None])), "key": draw(st.integers(0, 10 ** 6)),
@@ -791,7 +913,9 @@ def build_sampling_probe(case) -> Probe:
     if smode is not None and fn in ("grid_sample", "sample_image", "warp_image"):
         kw["mode"] = smode
     oshape = tuple(case["oshape"])
-    labels = [f"D={D}", f"ac={ac}", f"pad={pad}", f"bcast={case['bcast']}", f"outside={case['outside']}", f"mode={kw.get('mode')}"]
+    labels = [f"D={D}", f"ac={ac}", f"pad={pad}", f"bcast={case['bcast']}", f"outside={case['outside']}", f"mode={kw.get('mode')}",
+              f"point={case.get('point', 'generic')}"]
+    zero = _is_special(case)  # special point: exactly all-zero flow field
     data = noise((ND, C) + shape, key + 41, 0.0, 1.0)
     one = 2.0 / (min(size) - (1 if ac else 0))  # one sample in cube units (coarsest estimate)
 
@@ -817,7 +941,7 @@ def build_sampling_probe(case) -> Probe:
         tgt = coords((NG,) + oshape)
         g0 = Grid(shape=oshape, align_corners=ac).coords(align_corners=ac, dtype=torch.float64)
         g0 = g0.unsqueeze(0).expand((NG,) + tuple(g0.shape))
-        flow = tgt - g0
+        flow = torch.zeros_like(g0) if zero else tgt - g0
         if wrt == "data":
             d = _leaf(data)
             return Probe([d], lambda: U.warp_image(d, g0, flow=flow, **kw), 1.0, labels=labels)
@@ -854,16 +978,24 @@ def build_sampling_probe(case) -> Probe:
 
         grid = Grid(shape=shape, align_corners=ac)
         a = 0.3
-        flow = noise((ND, D) + shape, key + 47, -a, a)
+        flow = torch.zeros((ND, D) + shape, dtype=torch.float64) if zero else noise((ND, D) + shape, key + 47, -a, a)
         if fn == "FlowFields.exp":
             ff = FlowFields(flow, grid, requires_grad=True)
-            return Probe([ff], lambda: ff.exp(steps=3), a, labels=labels)
+            kwe = dict(steps=case.get("steps", 3))
+            scale = case.get("scale")
+            if wrt == "scaled" and scale in (None, 1.0):  # entry with a non-default scaling factor (e.g. -1: inverse)
+                scale = [0.5, -1.0, 2.0][key % 3]
+            if scale is not None:
+                kwe["scale"] = scale
+            if pad in ("border", "zeros", "reflect"):
+                kwe["padding"] = pad
+            return Probe([ff], lambda: ff.exp(**kwe), a, labels=labels + [f"steps={kwe['steps']}", f"scale={scale}"])
         img = ImageBatch(noise((ND, C) + shape, key + 48, 0.0, 1.0), grid, requires_grad=wrt == "image")
         ff = FlowFields(flow, grid, requires_grad=wrt == "flow")
         return Probe([ff if wrt == "flow" else img], lambda: ff.warp_image(img), a if wrt == "flow" else 1.0, labels=labels)
     if fn in ("sample_flow", "warp_points", "warp_grid"):
         a = 0.3
-        flow = noise((ND, D) + shape, key + 47, -a, a)
+        flow = torch.zeros((ND, D) + shape, dtype=torch.float64) if zero else noise((ND, D) + shape, key + 47, -a, a)
         kwf = dict(align_corners=ac)
         if fn == "warp_grid":
             x = Grid(shape=oshape, align_corners=ac).coords(align_corners=ac, dtype=torch.float64).unsqueeze(0)
@@ -909,10 +1041,13 @@ FLOW_ENTRIES = ["expv", "expv.inverse", "ExpFlow", "compose_flows.u", "compose_f
                 "jacobian_det", "jacobian_matrix", "curl", "divergence", "divergence_free_flow", "affine_flow", "normalize_flow",
                 "denormalize_flow"]
 FD_MODES = [None, "forward", "backward", "central", "forward_central_backward", "sobel", "prewitt", "gaussian", "bspline"]
+# special point: exactly all-zero field(s) (identity matrix for affine_flow).  lie_bracket is bilinear: with a zero argument it is
+# legitimately constant in the other one (not generated)
+FLOW_SPECIAL = tuple(e for e in FLOW_ENTRIES if e != "lie_bracket")
 
 
 @st.composite
-def flow_cases(draw, entry=None):
+def flow_cases(draw, entry=None, point=None):
     entry = entry or draw(st.sampled_from(FLOW_ENTRIES))
     D = 3 if entry == "curl" and draw(st.booleans()) else draw(gen.dims())
     return {
@@ -921,9 +1056,10 @@ def flow_cases(draw, entry=None):
         "steps": draw(st.integers(0, 5)), "scale": draw(st.sampled_from([None, 0.5, 1.0, 2.0, -1.0])),
         "bch": draw(st.integers(0, 5)), "iters": draw(st.integers(1, 2)), "exp_steps": draw(st.sampled_from([2, 3, 4])),
         "mode": draw(st.sampled_from(FD_MODES)), "sigma": draw(st.sampled_from([None, None, 0.7, 1.0])),
-        "order": draw(st.integers(1, 2)), "spacing": draw(st.sampled_from([None, "scalar", "vector"])),
+        "order": draw(st.integers(1, 2)), "spacing": draw(st.sampled_from([None, "scalar", "vector", "tensor"])),
         "stride": draw(st.sampled_from([1, 2])), "add_identity": draw(st.booleans()),
         "which": draw(st.sampled_from([None, None, "first", "mixed"])), "padding": draw(st.sampled_from([None, "border", "zeros", "reflect"])),
+        "point": _draw_point(draw, entry in FLOW_SPECIAL, point), "zero": draw(st.sampled_from(["both", "both", "u", "v"])),
     }
 
 
@@ -940,6 +1076,9 @@ def _deriv_kwargs(case, D, bspline_ok=True):
         kw["spacing"] = 0.5
     elif case["spacing"] == "vector":
         kw["spacing"] = [0.5 + 0.25 * k for k in range(D)]
+    elif case["spacing"] == "tensor":  # documented 2-dimensional tensor form: one spacing (vector) per image of the batch
+        N = case["N"]
+        kw["spacing"] = torch.tensor([[0.5 + 0.25 * k + 0.125 * n for k in range(D if case["key"] % 2 else 1)] for n in range(N)])
     if mode == "bspline":
         kw["stride"] = case["stride"]
     return kw, mode
@@ -951,13 +1090,21 @@ def build_flow_probe(case) -> Probe:
     from deepali.modules import ExpFlow
 
     entry, D, shape, key, ac, N, a = case["entry"], case["D"], tuple(case["shape"]), case["key"], case["ac"], case["N"], case["amp"]
-    labels = [f"D={D}", f"N={N}"]
+    labels = [f"D={D}", f"N={N}", f"point={case.get('point', 'generic')}"]
     u = noise((N, D) + shape, key + 61, -a, a)
     v = noise((N, D) + shape, key + 62, -a, a)
+    special = _is_special(case)
+    if special:  # exactly all-zero field(s); for the operations of two fields: both, or one of them (generated)
+        which = case.get("zero", "both") if (entry.startswith("compose_") ) else "both"
+        if entry.startswith("compose_flows") and which == "v" and entry.split(".")[1] != "u":
+            which = "both"  # v = 0 as a leaf with a non-zero u: u is sampled exactly at its knots (kink in v)
+        u = torch.zeros_like(u) if which in ("both", "u") else u
+        v = torch.zeros_like(v) if which in ("both", "v") else v
+        labels.append(f"zero={which}")
     if entry in ("expv", "expv.inverse", "ExpFlow"):
         f = _leaf(u)
         steps, scale = case["steps"], case["scale"]
-        labels += [f"steps={steps}", f"ac={ac}"]
+        labels += [f"steps={steps}", f"ac={ac}", f"scale={scale}"]
         if entry == "ExpFlow":
             mod = ExpFlow(scale=scale, steps=steps, align_corners=ac)
             return Probe([f], lambda: mod(f), a, stateful=True, labels=labels)
@@ -993,7 +1140,8 @@ def build_flow_probe(case) -> Probe:
         return Probe([f], lambda: _f25(lambda: U.logv(f, **kw), N), a, labels=labels)
     if entry == "spatial_derivatives":
         kw, mode = _deriv_kwargs(case, D)
-        d = _leaf(noise((N, case["C"]) + shape, key + 63, 0.0, 1.0))
+        d = noise((N, case["C"]) + shape, key + 63, 0.0, 1.0)
+        d = _leaf(torch.full_like(d, 0.5 * (key % 3)) if special else d)  # special point: constant image (0, 0.5 or 1)
         labels += [f"mode={mode}", f"order={case['order']}", f"sigma={case['sigma']}", f"which={case.get('which')}"]
         kw.update(_which_kwargs(case, D))
         return Probe([d], lambda: U.spatial_derivatives(d, **kw), 1.0, labels=labels)
@@ -1013,11 +1161,13 @@ def build_flow_probe(case) -> Probe:
     if entry == "divergence_free_flow":
         kw, mode = _deriv_kwargs(case, D)
         C = 1 if D == 2 else (2 + key % 2)
-        d = _leaf(noise((N, C) + shape, key + 64, -1.0, 1.0))
+        d = noise((N, C) + shape, key + 64, -1.0, 1.0)
+        d = _leaf(torch.zeros_like(d) if special else d)
         labels += [f"mode={mode}", f"C={C}"]
         return Probe([d], lambda: U.divergence_free_flow(d, **kw), 1.0, labels=labels)
     if entry == "affine_flow":
-        m = _leaf(torch.eye(D, D + 1, dtype=torch.float64).unsqueeze(0).repeat(N, 1, 1) + noise((N, D, D + 1), key + 65, -0.3, 0.3))
+        m = _leaf(torch.eye(D, D + 1, dtype=torch.float64).unsqueeze(0).repeat(N, 1, 1)
+                  + noise((N, D, D + 1), key + 65, -0.3, 0.3) * (0.0 if special else 1.0))  # special point: identity matrix
         grid = Grid(shape=shape, align_corners=ac)
         return Probe([m], lambda: U.affine_flow(m, grid), 0.3, labels=labels)
     if entry in ("normalize_flow", "denormalize_flow"):
@@ -1061,7 +1211,7 @@ BSPLINE_ENTRIES = ["evaluate_cubic_bspline", "evaluate_cubic_bspline.transpose",
 
 
 @st.composite
-def bspline_cases(draw, entry=None):
+def bspline_cases(draw, entry=None, point=None):
     entry = entry or draw(st.sampled_from(BSPLINE_ENTRIES))
     D = draw(gen.dims())
     return {
@@ -1069,6 +1219,7 @@ def bspline_cases(draw, entry=None):
         "key": draw(st.integers(0, 10 ** 6)), "stride": draw(st.lists(st.integers(1, 3), min_size=D, max_size=D)),
         "same_stride": draw(st.booleans()), "derivative": draw(st.lists(st.integers(0, 2), min_size=D, max_size=D)),
         "crop": draw(st.booleans()), "dims": draw(st.lists(st.integers(0, D - 1), min_size=0, max_size=D, unique=True)),
+        "point": _draw_point(draw, True, point),
     }
 
 
@@ -1076,10 +1227,11 @@ def build_bspline_probe(case) -> Probe:
     from deepali.core import functional as U
 
     entry, D, shape, key = case["entry"], case["D"], tuple(case["shape"]), case["key"]
-    c = _leaf(noise((case["N"], case["C"]) + shape, key + 71, -1.0, 1.0))
+    c = noise((case["N"], case["C"]) + shape, key + 71, -1.0, 1.0)
+    c = _leaf(torch.zeros_like(c) if _is_special(case) else c)  # special point: all-zero coefficients (initial FFD parameters)
     stride = case["stride"][0] if case["same_stride"] else list(case["stride"])
     sl = [case["stride"][0]] * D if case["same_stride"] else list(case["stride"])
-    labels = [f"D={D}", f"stride={sl}"]
+    labels = [f"D={D}", f"stride={sl}", f"point={case.get('point', 'generic')}"]
     kw = {}
     if case["crop"]:
         kw["size"] = [max(1, s * (n - 3) - 1) for s, n in zip(sl, shape[::-1])]
@@ -1109,15 +1261,23 @@ ROT_ENTRIES = ["euler_rotation_matrix", "euler_rotation_angles", "quaternion_to_
                "angle_axis_to_quaternion", "normalize_quaternion", "quaternion_log_to_exp", "quaternion_exp_to_log",
                "scaling_transform", "shear_matrix", "translation", "homogeneous_transform.points", "homogeneous_transform.matrix",
                "homogeneous_matmul", "Grid.transform_points", "Grid.transform_vectors", "Grid.transform_points.default_decimals"]
+# special point: zero angles / identity quaternion / identity matrix / unit scales / zero offsets.  Not generated for the angle-axis
+# and quaternion log / exp conversions (sqrt / norm of the rotation vector at 0: kink) and for 3D euler_rotation_angles (acos at 1)
+ROT_SPECIAL = ("euler_rotation_matrix", "euler_rotation_angles", "quaternion_to_rotation_matrix", "rotation_matrix_to_quaternion",
+               "normalize_quaternion", "scaling_transform", "shear_matrix", "translation", "homogeneous_transform.points",
+               "homogeneous_transform.matrix", "homogeneous_matmul")
 EULER_ORDERS = ["XYZ", "ZYX", "ZXY", "XZX", "ZXZ", "YXZ", "XYX", "YZY", "ZYZ"]
 AX4 = ["grid", "cube", "cube_corners", "world"]
 
 
 @st.composite
-def rotation_cases(draw, entry=None):
+def rotation_cases(draw, entry=None, point=None):
     entry = entry or draw(st.sampled_from(ROT_ENTRIES))
     D = draw(gen.dims())
-    case = {"entry": entry, "D": D, "N": draw(st.integers(1, 3)), "key": draw(st.integers(0, 10 ** 6)),
+    point = _draw_point(draw, entry in ROT_SPECIAL, point)
+    if point == "special" and entry == "euler_rotation_angles":
+        D = 2  # identity matrix: atan2 is smooth there; the 3D decompositions have their acos end point / gimbal lock at identity
+    case = {"entry": entry, "D": D, "N": draw(st.integers(1, 3)), "key": draw(st.integers(0, 10 ** 6)), "point": point,
             "order": draw(st.sampled_from(EULER_ORDERS)), "homogeneous": draw(st.booleans()),
             "a": draw(st.sampled_from(AX4)), "b": draw(st.sampled_from(AX4)), "two": draw(st.booleans()),
             "dtype": draw(st.sampled_from(["float64", "float64", "float32"]))}
@@ -1143,18 +1303,23 @@ def build_rotation_probe(case) -> Probe:
 
     entry, D, N, key = case["entry"], case["D"], case["N"], case["key"]
     dt = torch.float64 if case["dtype"] == "float64" else torch.float32
-    labels = [case["dtype"]]
+    labels = [case["dtype"], f"point={case.get('point', 'generic')}"]
+    sp = _is_special(case)
+    g_ = 0.0 if sp else 1.0  # factor of the generic offsets from the identity element
     if entry == "euler_rotation_matrix":
         if D == 2:
-            a = _leaf(noise((N, 1), key + 81, -3.0, 3.0, dt))
+            a = _leaf(noise((N, 1), key + 81, -3.0, 3.0, dt) * g_)
             return Probe([a], lambda: U.euler_rotation_matrix(a, homogeneous=case["homogeneous"]), 1.0, labels=labels + ["D=2"])
-        a = _leaf(noise((N, 3), key + 81, -3.0, 3.0, dt))
+        a = _leaf(noise((N, 3), key + 81, -3.0, 3.0, dt) * g_)
         order = case["order"]
         # the generic-order fallback multiplies (N, 3, 3) factors (homogeneous output is a C08 matter, not generated here)
         hom = case["homogeneous"] and order in ("XYZ", "ZYX", "ZXY", "XZX", "ZXZ")
         return Probe([a], lambda: U.euler_rotation_matrix(a, order=order, homogeneous=hom), 1.0,
                      labels=labels + [f"order={order}", f"hom={hom}"])
     q, R = _generic_rotations(N, key + 82)
+    if sp:  # identity quaternion / rotation matrix
+        q = np.tile(np.array([1.0, 0.0, 0.0, 0.0]), (N, 1))
+        R = np.tile(np.eye(3), (N, 1, 1))
     if entry == "euler_rotation_angles":
         order = case["order"] if case["order"] in ("XZX", "ZXZ") else "ZXZ"
         dt = torch.float64  # the function validates |det| = 1 with allclose: only float64 steps keep the perturbed matrix valid
@@ -1163,12 +1328,12 @@ def build_rotation_probe(case) -> Probe:
         if order in ("XZX", "ZXZ"):
             ang[:, 1] = np.abs(ang[:, 1])
         if D == 2:
-            M = _leaf(torch.tensor(np.stack([ref.rot2(x[0]) for x in ang]), dtype=dt))
-            return Probe([M], lambda: U.euler_rotation_angles(M), 1.0, labels=["float64", "D=2"])
+            M = _leaf(torch.tensor(np.stack([ref.rot2(x[0] * g_) for x in ang]), dtype=dt))
+            return Probe([M], lambda: U.euler_rotation_angles(M), 1.0, labels=["float64", "D=2", labels[1]])
         M = _leaf(torch.tensor(np.stack([ref.euler_matrix(x, order) for x in ang]), dtype=dt))
         return Probe([M], lambda: U.euler_rotation_angles(M, order=order), 1.0, labels=["float64", f"order={order}"])
     if entry == "quaternion_to_rotation_matrix":
-        x = _leaf(torch.tensor(q * (0.5 + hash_noise((N, 1), key + 85, 0.0, 1.0)), dtype=dt))
+        x = _leaf(torch.tensor(q * (1.0 if sp else 0.5 + hash_noise((N, 1), key + 85, 0.0, 1.0)), dtype=dt))
         return Probe([x], lambda: U.quaternion_to_rotation_matrix(x), 1.0, labels=labels)
     if entry in ("rotation_matrix_to_quaternion", "rotation_matrix_to_angle_axis"):
         tr = np.trace(R, axis1=1, axis2=2)
@@ -1188,20 +1353,20 @@ def build_rotation_probe(case) -> Probe:
     if entry == "quaternion_exp_to_log":
         x = _leaf(torch.tensor(q * 0.9, dtype=dt))  # |w| < 1: inside the clamp of acos
         return Probe([x], lambda: U.quaternion_exp_to_log(x), 1.0, labels=labels)
-    if entry == "normalize_quaternion":
-        x = _leaf(torch.tensor(q * (0.5 + hash_noise((N, 1), key + 85, 0.0, 1.0)), dtype=dt))
+    if entry == "normalize_quaternion":  # special point: already normalised (identity) quaternion
+        x = _leaf(torch.tensor(q * (1.0 if sp else 0.5 + hash_noise((N, 1), key + 85, 0.0, 1.0)), dtype=dt))
         return Probe([x], lambda: U.normalize_quaternion(x), 1.0, labels=labels)
     if entry == "scaling_transform":
-        x = _leaf(noise((N, D), key + 87, 0.5, 1.5, dt))
+        x = _leaf(torch.ones((N, D), dtype=dt) if sp else noise((N, D), key + 87, 0.5, 1.5, dt))
         return Probe([x], lambda: U.scaling_transform(x), 1.0, labels=labels)
     if entry == "shear_matrix":
-        x = _leaf(noise((N, 1 if D == 2 else 3), key + 88, -0.6, 0.6, dt))
+        x = _leaf(noise((N, 1 if D == 2 else 3), key + 88, -0.6, 0.6, dt) * g_)
         return Probe([x], lambda: U.shear_matrix(x), 1.0, labels=labels)
     if entry == "translation":
-        x = _leaf(noise((N, D), key + 89, -1.0, 1.0, dt))
+        x = _leaf(noise((N, D), key + 89, -1.0, 1.0, dt) * g_)
         return Probe([x], lambda: U.translation(x), 1.0, labels=labels)
     if entry.startswith("homogeneous_transform"):
-        m = torch.eye(D, D + 1, dtype=dt).unsqueeze(0).repeat(N, 1, 1) + noise((N, D, D + 1), key + 90, -0.3, 0.3, dt)
+        m = torch.eye(D, D + 1, dtype=dt).unsqueeze(0).repeat(N, 1, 1) + noise((N, D, D + 1), key + 90, -0.3, 0.3, dt) * g_
         p = noise((N, 4, D), key + 91, -1.0, 1.0, dt)
         if entry.endswith("points"):
             p = _leaf(p)
@@ -1209,9 +1374,9 @@ def build_rotation_probe(case) -> Probe:
         m = _leaf(m)
         return Probe([m], lambda: U.homogeneous_transform(m, p), 1.0, labels=labels)
     if entry == "homogeneous_matmul":
-        a = _leaf(torch.eye(D, D + 1, dtype=dt).unsqueeze(0).repeat(N, 1, 1) + noise((N, D, D + 1), key + 92, -0.3, 0.3, dt))
-        b = _leaf(torch.eye(D, dtype=dt).unsqueeze(0).repeat(N, 1, 1) + noise((N, D, D), key + 93, -0.3, 0.3, dt))
-        c = _leaf(noise((N, D, 1), key + 94, -0.3, 0.3, dt))
+        a = _leaf(torch.eye(D, D + 1, dtype=dt).unsqueeze(0).repeat(N, 1, 1) + noise((N, D, D + 1), key + 92, -0.3, 0.3, dt) * g_)
+        b = _leaf(torch.eye(D, dtype=dt).unsqueeze(0).repeat(N, 1, 1) + noise((N, D, D), key + 93, -0.3, 0.3, dt) * g_)
+        c = _leaf(noise((N, D, 1), key + 94, -0.3, 0.3, dt) * g_)
         return Probe([a, b, c], lambda: U.homogeneous_matmul(a, b, c), 0.3, labels=labels)
     # Grid point / vector maps
     g = case["grid"]
@@ -1247,18 +1412,28 @@ SIM_ENTRIES = ELEMENTWISE + ["ncc_loss", "lcc_loss", "wlcc_loss", "mi_loss", "nm
                              "binary_cross_entropy_with_logits", "masked_loss", "reduce_loss"]
 
 
+# special point: identical source and target images (the optimum a registration converges to; for the losses on logits: the target
+# equals the predicted probabilities; kld_loss: the standard normal).  Not generated for mae / l1 (|x - y| at 0: kink).  The
+# multiplicative weights / masks are not differentiated there (a zero residual makes the loss legitimately constant in them).
+SIM_SPECIAL = ("mse_loss", "ssd_loss", "huber_loss", "smooth_l1_loss", "ncc_loss", "lcc_loss", "wlcc_loss", "mi_loss", "nmi_loss",
+               "dice_score", "dice_loss", "tversky_index", "tversky_index_with_logits", "tversky_loss", "tversky_loss_with_logits",
+               "kld_loss", "balanced_binary_cross_entropy_with_logits", "focal_loss_with_logits", "binary_cross_entropy_with_logits")
+
+
 @st.composite
-def similarity_cases(draw, entry=None):
+def similarity_cases(draw, entry=None, point=None):
     entry = entry or draw(st.sampled_from(SIM_ENTRIES))
     D = draw(gen.dims())
+    point = _draw_point(draw, entry in SIM_SPECIAL, point)
     return {
+        "point": point, "wrt": draw(st.sampled_from(["both", "input", "target"] + ([] if point == "special" else ["weights"]))),
         "entry": entry, "D": D, "shape": draw(small_shapes(D, 4)), "N": draw(st.integers(1, 2)), "C": draw(st.integers(1, 2)),
         "key": draw(st.integers(0, 10 ** 6)), "reduction": draw(st.sampled_from(["mean", "sum", "none"])),
-        "mask": draw(st.sampled_from([None, None, "full", "channel"])), "norm": draw(st.sampled_from([None, 2.5])),
+        "mask": draw(st.sampled_from([None, None, "full", "channel"])), "norm": draw(st.sampled_from([None, 2.5, "tensor"])),
         "delta": draw(gen.qfloat(0.3, 1.0, 0.05)), "kernel": draw(st.sampled_from([3, 5, 7])),
         "bins": draw(st.sampled_from([8, 16, 32])), "alpha": draw(st.sampled_from([None, 0.3, 0.7])),
         "beta": draw(st.sampled_from([None, 0.4])), "gamma": draw(st.sampled_from([None, 1.0, 1.5])),
-        "normalize": draw(st.booleans()), "wrt": draw(st.sampled_from(["both", "input", "target", "weights"])),
+        "normalize": draw(st.booleans()),
         "norm_from": draw(st.sampled_from([None, "source", "both"])), "alt_name": draw(st.booleans()),
         "wmask": draw(st.sampled_from(["none", "mask", "source_target"])),
     }
@@ -1317,8 +1492,9 @@ def build_similarity_probe(case) -> Probe:
     entry, D, shape, key, N, C = case.get("fentry") or case["entry"], case["D"], tuple(case["shape"]), case["key"], case["N"], case["C"]
     full = (N, C) + shape
     red = case["reduction"]
-    labels = [f"D={D}", f"red={red}", f"wrt={case['wrt']}"]
+    labels = [f"D={D}", f"red={red}", f"wrt={case['wrt']}", f"point={case.get('point', 'generic')}"]
     stateful = case.get("module") is not None
+    same = _is_special(case) and entry in SIM_SPECIAL  # special point: identical source and target
 
     def pick(x, y):
         """Leaves according to `wrt` ('weights' falls back to both where the entry has no differentiable weights)."""
@@ -1335,17 +1511,24 @@ def build_similarity_probe(case) -> Probe:
         if entry in ("huber_loss", "smooth_l1_loss"):
             d = case["delta"]
             lo_hi = torch.where(noise(full, key + 104) < 0, 0.05 + mag * (d - 0.1), d + 0.05 + mag * 0.5)
-            y = x + sgn * lo_hi
+            y = x.clone() if same else x + sgn * lo_hi  # x = y: the smooth (quadratic) branch
             kw["delta" if entry == "huber_loss" else "beta"] = d
             labels.append(f"delta={d}")
         else:
-            y = x + sgn * (0.05 + 0.5 * mag)
+            y = x.clone() if same else x + sgn * (0.05 + 0.5 * mag)
         if case["mask"] is not None:
             kw["mask"] = _posmask((N, 1 if case["mask"] == "channel" else C) + shape, key + 105)
-        if case["norm"] is not None:
-            kw["norm"] = case["norm"]
-        labels.append(f"mask={case['mask']}")
+        norm_leaf = None
+        if case["norm"] == "tensor" and not case.get("module") and not same:  # (a zero residual is constant in the norm)
+            # 'norm' is documented as float or Tensor (e.g. max_difference(source, target).square() of images being optimised):
+            # a 0-dimensional tensor carrying a gradient
+            norm_leaf = kw["norm"] = _leaf(torch.tensor(1.5 + (key % 7) / 4.0, dtype=torch.float64))
+        elif case["norm"] is not None:
+            kw["norm"] = 2.5 if case["norm"] == "tensor" else case["norm"]
+        labels += [f"mask={case['mask']}", f"norm={case['norm']}"]
         xl, yl, leaves = pick(x, y)
+        if norm_leaf is not None:
+            leaves = leaves + [norm_leaf]
         if case["wrt"] == "weights" and "mask" in kw:
             # soft masks are multiplicative weights (masked_loss) and normalise the mean (reduce_loss):
             # the loss sum(l*m)/sum(m) is a differentiable function of the mask (e.g. a warped overlap mask)
@@ -1358,7 +1541,7 @@ def build_similarity_probe(case) -> Probe:
         return Probe(leaves, lambda: call(xl, yl), 1.0, labels=labels, stateful=stateful)
     if entry in ("ncc_loss", "lcc_loss", "wlcc_loss"):
         x = noise(full, key + 106, 0.0, 1.0)
-        y = 0.6 * x + 0.4 * noise(full, key + 107, 0.0, 1.0)
+        y = x.clone() if same else 0.6 * x + 0.4 * noise(full, key + 107, 0.0, 1.0)
         xl, yl, leaves = pick(x, y)
         kw = dict(reduction=red)
         if entry != "ncc_loss":
@@ -1385,10 +1568,11 @@ def build_similarity_probe(case) -> Probe:
                         kw[k] = _leaf(kw[k])
                 leaves = [kw[k] for k in ("mask", "source_mask", "target_mask") if k in kw]
         call = _loss_fn(case, entry, kw)
-        return Probe(leaves, lambda: call(xl, yl), 1.0, labels=labels, abs_mag=1.0, rule="f32", stateful=stateful)  # casts to float32
+        # identical images: the result 1 - a**2 / (b * c) and its gradient are pure float32 round-off of three accumulated sums
+        return Probe(leaves, lambda: call(xl, yl), 1.0, labels=labels, abs_mag=4.0 if same else 1.0, rule="f32", stateful=stateful)
     if entry in ("mi_loss", "nmi_loss"):
         x = noise((N, 1) + shape, key + 110, 0.0, 1.0)
-        y = 0.5 * x + 0.5 * noise((N, 1) + shape, key + 111, 0.0, 1.0)
+        y = x.clone() if same else 0.5 * x + 0.5 * noise((N, 1) + shape, key + 111, 0.0, 1.0)
         xl, yl, leaves = pick(x, y)
         kw = dict(vmin=-0.25, vmax=1.25, num_bins=case["bins"])
         if case["mask"] is not None:
@@ -1398,6 +1582,7 @@ def build_similarity_probe(case) -> Probe:
         return Probe(leaves, lambda: call(xl, yl), 1.0, labels=labels, stateful=stateful)
     if entry in ("dice_score", "dice_loss"):
         x, y = noise(full, key + 113, 0.05, 0.95), noise(full, key + 114, 0.05, 0.95)
+        y = x.clone() if same else y
         xl, yl, leaves = pick(x, y)
         kw = dict(reduction=red)
         if case["mask"] is not None:
@@ -1406,12 +1591,14 @@ def build_similarity_probe(case) -> Probe:
                 kw["weight"] = _leaf(kw["weight"])
                 leaves = [kw["weight"]]
         call = _loss_fn(case, entry, kw)
-        return Probe(leaves, lambda: call(xl, yl), 1.0, labels=labels, abs_mag=1.0, rule="f32", stateful=stateful)  # casts to float32
+        return Probe(leaves, lambda: call(xl, yl), 1.0, labels=labels, abs_mag=4.0 if same else 1.0, rule="f32", stateful=stateful)
     if entry.startswith("tversky"):
         logits = entry.endswith("with_logits") or case["normalize"]
         C2 = C if not entry.endswith("with_logits") else 1
         x = noise((N, C2) + shape, key + 116, -2.0, 2.0) if logits else noise((N, C2) + shape, key + 116, 0.05, 0.95)
         y = noise((N, max(2, C2) if C2 > 1 else 1) + shape, key + 117, 0.05, 0.95)
+        if same and y.shape == x.shape:  # the target equals the prediction (the probabilities of the logits)
+            y = (x.sigmoid() if x.shape[1] == 1 else x.softmax(1)) if logits else x.clone()
         xl, yl, leaves = pick(x, y)
         kw = dict(alpha=case["alpha"], beta=case["beta"], reduction=red)
         if not entry.endswith("with_logits"):
@@ -1429,13 +1616,14 @@ def build_similarity_probe(case) -> Probe:
                     raise Skip("excluded_known F11 (C16): tversky_loss passes gamma to tversky_index")
                 raise
 
-        return Probe(leaves, call, 1.0, labels=labels, abs_mag=1.0, rule="f32")  # the loss casts to float32
+        return Probe(leaves, call, 1.0, labels=labels, abs_mag=4.0 if same else 1.0, rule="f32")  # the loss casts to float32
     if entry == "kld_loss":
-        mu, lv = _leaf(noise((N, 6), key + 118, -1.0, 1.0)), _leaf(noise((N, 6), key + 119, -1.0, 1.0))
+        z_ = 0.0 if same else 1.0  # special point: mean 0, log-variance 0 (the minimum)
+        mu, lv = _leaf(noise((N, 6), key + 118, -1.0, 1.0) * z_), _leaf(noise((N, 6), key + 119, -1.0, 1.0) * z_)
         return Probe([mu, lv], lambda: L.kld_loss(mu, lv, reduction=red), 1.0, labels=labels)
     if entry in ("balanced_binary_cross_entropy_with_logits", "focal_loss_with_logits"):
         x = _leaf(noise((N, 1) + shape, key + 120, -2.0, 2.0))
-        y = noise((N, 1) + shape, key + 121, 0.05, 0.95)
+        y = x.detach().sigmoid() if same else noise((N, 1) + shape, key + 121, 0.05, 0.95)
         kw = dict(reduction=red)
         if case["mask"] is not None:
             kw["weight"] = _posmask((N, 1) + shape, key + 122)
@@ -1451,6 +1639,7 @@ def build_similarity_probe(case) -> Probe:
         return Probe([x], lambda: L.label_smoothing(x, alpha=0.1), 1.0, labels=labels)
     if entry == "binary_cross_entropy_with_logits":  # re-exported torch function
         x, y = noise(full, key + 124, -2.0, 2.0), noise(full, key + 125, 0.05, 0.95)
+        y = x.sigmoid() if same else y
         xl, yl, leaves = pick(x, y)
         kw = dict(reduction=red)
         if case["mask"] is not None:
@@ -1486,15 +1675,22 @@ REG_ENTRIES = ["bending_loss", "curvature_loss", "diffusion_loss", "divergence_l
                "total_variation_loss", "bspline_bending_loss", "inverse_consistency_loss"]
 
 
+# special point: exactly all-zero vector field / coefficients (initial parameters).  Not generated for total_variation_loss (|du| at
+# 0) and inverse_consistency_loss (Euclidean norm of a zero residual): kinks; grad_loss there only with even p and q in {1, 2}
+REG_SPECIAL = ("bending_loss", "curvature_loss", "diffusion_loss", "divergence_loss", "elasticity_loss", "grad_loss",
+               "bspline_bending_loss")
+
+
 @st.composite
-def regulariser_cases(draw, entry=None):
+def regulariser_cases(draw, entry=None, point=None):
     entry = entry or draw(st.sampled_from(REG_ENTRIES))
     D = draw(gen.dims())
     case = {
+        "point": _draw_point(draw, entry in REG_SPECIAL, point),
         "entry": entry, "D": D, "shape": draw(small_shapes(D, 4, 8, 5)), "N": draw(st.integers(1, 2)), "key": draw(st.integers(0, 10 ** 6)),
         "amp": draw(gen.qfloat(0.05, 0.4, 0.01)), "reduction": draw(st.sampled_from(["mean", "sum", "none"])),
         "mode": draw(st.sampled_from(FD_MODES)), "sigma": draw(st.sampled_from([None, None, 0.7])),
-        "spacing": draw(st.sampled_from([None, "scalar", "vector"])), "stride": draw(st.sampled_from([1, 2])),
+        "spacing": draw(st.sampled_from([None, "scalar", "vector", "tensor"])), "stride": draw(st.sampled_from([1, 2])),
         "p": draw(st.sampled_from([0, 1, 2, 3, 4, 1.5])), "q": draw(st.sampled_from([1, None, 0, 0.5, 2])),
         "lame": draw(st.sampled_from([[1.0, 0.5], [0.0, 1.0], [2.0, 0.0], "rubber"])),
         "units": draw(st.sampled_from(["cube", "voxel", "world"])), "margin": draw(st.sampled_from([0, 1, 0.2])),
@@ -1511,8 +1707,9 @@ def build_regulariser_probe(case) -> Probe:
 
     entry, D, shape, key, N, a, red = (case.get("fentry") or case["entry"], case["D"], tuple(case["shape"]), case["key"], case["N"],
                                        case["amp"], case["reduction"])
-    labels = [f"D={D}", f"red={red}"]
+    labels = [f"D={D}", f"red={red}", f"point={case.get('point', 'generic')}"]
     stateful = case.get("module") is not None
+    zero = _is_special(case) and entry in REG_SPECIAL  # special point: exactly all-zero field
     if entry == "inverse_consistency_loss":
         g = case["grid"]
         grid = make_grid(g)
@@ -1530,7 +1727,7 @@ def build_regulariser_probe(case) -> Probe:
         leaves = [t for t in (fl, il) if t.requires_grad]
         return Probe(leaves, lambda: L.inverse_consistency_loss(fl, il, **kw), a, labels=labels)
     if entry == "bspline_bending_loss":
-        u = _leaf(noise((N, D) + shape, key + 135, -a, a))
+        u = _leaf(noise((N, D) + shape, key + 135, -a, a) * (0.0 if zero else 1.0))
         st_ = case["stride"]
         call = _loss_fn(case, entry, dict(stride=st_, reduction=red))
         return Probe([u], lambda: call(u), a, labels=labels + [f"stride={st_}"], stateful=stateful)
@@ -1548,6 +1745,9 @@ def build_regulariser_probe(case) -> Probe:
                 kw.pop("stride", None)
                 labels[-1] = "mode=central"
         u = _leaf(monotone_field(N, D, shape, key + 136, 0.05, 0.3))
+        if zero:  # sum(|du|**p)**q is smooth at du = 0 for even p and q in {1, 2} only
+            p, q = (p if p in (2, 4) else 2), (q if q in (1, 2) else 1)
+            u = _leaf(torch.zeros_like(u))
         if entry == "grad_loss":
             if p == 0 and q not in (1, 2):
                 q = 1  # sum of signed derivatives raised to a fractional power / abs: kink at 0
@@ -1561,7 +1761,7 @@ def build_regulariser_probe(case) -> Probe:
             labels += [f"p={p}", f"q={q}"]
         call = _loss_fn(case, entry, kw)
         return Probe([u], lambda: call(u), 0.3, labels=labels, stateful=stateful)
-    u = _leaf(noise((N, D) + shape, key + 137, -a, a))
+    u = _leaf(noise((N, D) + shape, key + 137, -a, a) * (0.0 if zero else 1.0))
     if entry == "elasticity_loss":
         lame = case["lame"]
         if lame == "rubber":
@@ -1595,16 +1795,17 @@ LOSS_MODULE_ENTRIES = sorted(LOSS_MODULES) + PARAM_LOSSES + ["PatchwiseImageLoss
 
 
 @st.composite
-def loss_module_cases(draw, entry=None):
+def loss_module_cases(draw, entry=None, point=None):
     entry = entry or draw(st.sampled_from(LOSS_MODULE_ENTRIES))
     if entry in LOSS_MODULES:
         f = LOSS_MODULES[entry]
-        case = draw(similarity_cases(entry=f) if f in SIM_ENTRIES else regulariser_cases(entry=f))
+        case = draw(similarity_cases(entry=f, point=point) if f in SIM_ENTRIES else regulariser_cases(entry=f, point=point))
         case.update(entry=entry, fentry=f, module=entry)
         if f in SIM_ENTRIES:
             case["reduction"] = "mean"
         return case
     return {"entry": entry, "D": 3 if entry == "PatchwiseImageLoss" else draw(gen.dims()), "N": draw(st.integers(1, 2)),
+            "point": _draw_point(draw, entry == "L2Norm", point),  # zero parameters (L1Norm / Sparsity: |p| at 0 is a kink)
             "C": draw(st.integers(1, 2)), "key": draw(st.integers(0, 10 ** 6)), "shape": draw(small_shapes(3, 3, 5, 5)),
             "pshape": draw(small_shapes(3, 1, 3, 3)), "scale": draw(st.sampled_from([None, 1.0, 1000.0])),
             "inner": draw(st.sampled_from([None, "SSD", "L2ImageLoss", "L1ImageLoss", "NCC"])), "mask": draw(st.booleans()),
@@ -1625,9 +1826,11 @@ def build_loss_module_probe(case) -> Probe:
         shape = tuple(case["psize"])
         mag = noise((N,) + shape, key + 161, 0.05, 1.0)  # |p| >= 0.05: away from the kink of abs()
         x = _leaf(mag * torch.where(noise((N,) + shape, key + 162) < 0, -1.0, 1.0).double())
+        if _is_special(case) and entry == "L2Norm":
+            x = _leaf(torch.zeros_like(x))
         kw = {} if (case["scale"] is None or entry == "Sparsity") else dict(scale=case["scale"])
         mod = getattr(LM, entry)(**kw)
-        return Probe([x], lambda: mod(x), 1.0, stateful=True, labels=[f"scale={case['scale']}"])
+        return Probe([x], lambda: mod(x), 1.0, stateful=True, labels=[f"scale={case['scale']}", f"point={case.get('point', 'generic')}"])
     # PatchwiseImageLoss: 2D patches sampled within a 3D volume; source and target have the same shape
     shape, psh = tuple(case["shape"]), tuple(case["pshape"])
     inner = case["inner"]
@@ -1663,10 +1866,11 @@ POINTSET_ENTRIES = ["ClosestPointDistance.x", "ClosestPointDistance.y", "Closest
 
 
 @st.composite
-def pointset_cases(draw, entry=None):
+def pointset_cases(draw, entry=None, point=None):
     entry = entry or draw(st.sampled_from(POINTSET_ENTRIES))
     D = draw(gen.dims())
     return {"entry": entry, "D": D, "N": draw(st.integers(1, 2)), "X": draw(st.integers(1, 6)), "extra": draw(st.integers(0, 4)),
+            "point": _draw_point(draw, entry.endswith(".transformed"), point),  # the transformation at its initial parameters
             "sets": draw(st.integers(1, 3)), "which": draw(st.integers(0, 2)), "key": draw(st.integers(0, 10 ** 6)),
             "scale": draw(st.sampled_from([10.0, 1.0, 0.5])), "split": draw(st.sampled_from([None, 1, 2, 100000])),
             "dtype": draw(st.sampled_from(["float64", "float32"])), "T": draw(st.sampled_from(["AffineTransform", "FreeFormDeformation",
@@ -1709,7 +1913,8 @@ def build_pointset_probe(case) -> Probe:
     unit, t, src = 1.0, None, None
     if wrt == "transformed":
         # registration use: the point set in argument position j + 1 is the output of the transformation being optimised
-        tcase = {"N": 1, "key": key, "dtype": "float64", "amp": 0.2, "ffd_stride": 2, "transpose": False, "order": None}
+        tcase = {"N": 1, "key": key, "dtype": "float64", "amp": 0.2, "ffd_stride": 2, "transpose": False, "order": None,
+                 "point": case.get("point", "generic")}
         grid = make_grid({"kind": "identity", "size": [5] * D, "spacing": [1.0] * D, "center": [0.0] * D, "ac": True,
                           "rot": [0.0] * (1 if D == 2 else 3), "perm": list(range(D)), "flip": [1] * D})
         t = build_transform(case["T"], grid, tcase)
@@ -1722,7 +1927,7 @@ def build_pointset_probe(case) -> Probe:
             unit = float(dist.min()) / 0.8
         else:
             unit = 0.3
-        labels.append(f"T={case['T']}")
+        labels += [f"T={case['T']}", f"point={case.get('point', 'generic')}"]
     # x: a point of `base` plus an offset of norm in [0.1, 0.3] units -> the nearest neighbour in `base` of each x is
     # unique with a margin >= 0.2 units and no distance is zero (kink of the Euclidean norm)
     if closest:
@@ -1787,13 +1992,21 @@ CORE_ENTRIES = [
     "grid_sample_mask.coords", "jacobian_dict", "normalize_grid", "denormalize_grid", "polyline_directions", "polyline_tangents",
     "transform_grid.transform", "transform_grid.grid", "transform_points.transform", "transform_points.points", "bounding_box"]
 PAD_MODES = ["constant", "reflect", "replicate"]
+# special point: identity matrices / zero offsets / zero angles / all-zero flow, and the no-op argument forms that return the input
+# (zero margins, same size, same spacing, zero levels)
+CORE_SPECIAL = ("affine_rotation_matrix", "affine_transform_points.transforms", "affine_transform_points.points",
+                "affine_transform_vectors.transforms", "affine_transform_vectors.vectors", "apply_affine_transform",
+                "as_homogeneous_matrix", "as_homogeneous_tensor", "hmm", "homogeneous_matrix", "rotation_matrix", "jacobian_dict",
+                "transform_grid.transform", "transform_grid.grid", "transform_points.transform", "transform_points.points",
+                "crop", "pad", "center_crop", "center_pad", "downsample", "upsample", "grid_resample", "grid_resize")
 
 
 @st.composite
-def core_cases(draw, entry=None):
+def core_cases(draw, entry=None, point=None):
     entry = entry or draw(st.sampled_from(CORE_ENTRIES))
     D = draw(gen.dims())
     return {"entry": entry, "D": D, "shape": draw(small_shapes(D, 4, 8, 6)), "N": draw(st.integers(1, 2)), "C": draw(st.integers(1, 2)),
+            "point": _draw_point(draw, entry in CORE_SPECIAL, point),
             "key": draw(st.integers(0, 10 ** 6)), "ac": draw(st.booleans()), "opt": draw(st.integers(0, 5)), "opt2": draw(st.integers(0, 3)),
             "flag": draw(st.booleans()), "mode": draw(st.sampled_from(PAD_MODES)), "sigma": draw(st.sampled_from([None, 0, 0.7, 1.0])),
             "margin": draw(st.lists(st.integers(-1, 2), min_size=D, max_size=D)), "ksize": draw(st.sampled_from([2, 3])),
@@ -1809,15 +2022,17 @@ def build_core_probe(case) -> Probe:
     ac, opt, flag = case["ac"], case["opt"], case["flag"]
     fn, _, wrt = entry.partition(".")
     size = shape[::-1]
-    labels = [f"D={D}"]
+    labels = [f"D={D}", f"point={case.get('point', 'generic')}"]
     f = getattr(U, fn)
+    sp = _is_special(case) and entry in CORE_SPECIAL
+    g_ = 0.0 if sp else 1.0  # factor of the generic offsets from the identity element
 
     def image(k=0, lo=0.0, hi=1.0, n=None, c=None):
         return noise((N if n is None else n, C if c is None else c) + shape, key + 171 + k, lo, hi)
 
     def matrix(k=0, cols=None, amp=0.3):
         cols = D + 1 if cols is None else cols
-        return torch.eye(D, cols, dtype=torch.float64).unsqueeze(0).repeat(N, 1, 1) + noise((N, D, cols), key + 181 + k, -amp, amp)
+        return torch.eye(D, cols, dtype=torch.float64).unsqueeze(0).repeat(N, 1, 1) + noise((N, D, cols), key + 181 + k, -amp, amp) * g_
 
     def away(t, eps=0.05):  # values with |t| >= eps
         return t + eps * torch.where(t < 0, -1.0, 1.0).to(t.dtype)
@@ -1861,13 +2076,13 @@ def build_core_probe(case) -> Probe:
     # ---- homogeneous transforms
     if fn == "affine_rotation_matrix":
         m = torch.eye(3, 4 if flag else 3, dtype=torch.float64).unsqueeze(0).repeat(N, 1, 1)
-        m = _leaf(m + noise(tuple(m.shape), key + 182, -0.25, 0.25))
+        m = _leaf(m + noise(tuple(m.shape), key + 182, -0.25, 0.25) * g_)
         return Probe([m], lambda: f(m), 0.3, labels=labels + [f"cols={m.shape[-1]}"])
     if fn in ("affine_transform_points", "affine_transform_vectors", "apply_affine_transform"):
         cols = [1, D, D + 1][opt % 3]
         if fn == "affine_transform_vectors" and cols == 1:
             cols = D  # a pure translation does not act on vectors
-        m = matrix(0, cols) if cols > 1 else noise((N, D, 1), key + 183, -0.5, 0.5)
+        m = matrix(0, cols) if cols > 1 else noise((N, D, 1), key + 183, -0.5, 0.5) * g_
         p = noise((N, 4, D), key + 184, -1.0, 1.0)
         labels.append(f"cols={cols}")
         if fn == "apply_affine_transform":
@@ -1881,24 +2096,24 @@ def build_core_probe(case) -> Probe:
         return Probe([p], lambda: f(m, p), 1.0, labels=labels)
     if fn in ("as_homogeneous_matrix", "as_homogeneous_tensor"):
         cols = [1, D, D + 1][opt % 3]
-        m = _leaf(matrix(0, cols) if cols > 1 else noise((N, D, 1), key + 183, -0.5, 0.5))
+        m = _leaf(matrix(0, cols) if cols > 1 else noise((N, D, 1), key + 183, -0.5, 0.5) * g_)
         if fn == "as_homogeneous_tensor":
             return Probe([m], lambda: f(m)[0] * 1.0, 0.3, labels=labels + [f"cols={cols}"])
         return Probe([m], lambda: f(m) * 1.0, 0.3, labels=labels + [f"cols={cols}"])
     if fn == "hmm":
         ca, cb = [1, D, D + 1][opt % 3], [1, D, D + 1][case["opt2"] % 3]
-        a = _leaf(matrix(0, ca) if ca > 1 else noise((N, D, 1), key + 183, -0.5, 0.5))
-        b = _leaf(matrix(1, cb) if cb > 1 else noise((N, D, 1), key + 185, -0.5, 0.5))
+        a = _leaf(matrix(0, ca) if ca > 1 else noise((N, D, 1), key + 183, -0.5, 0.5) * g_)
+        b = _leaf(matrix(1, cb) if cb > 1 else noise((N, D, 1), key + 185, -0.5, 0.5) * g_)
         return Probe([a, b], lambda: f(a, b), 0.3, labels=labels + [f"cols={ca},{cb}"])
     if fn == "homogeneous_matrix":
         cols = [1, D, D + 1][opt % 3]
-        m = _leaf(matrix(0, cols) if cols > 1 else noise((N, D, 1), key + 183, -0.5, 0.5))
+        m = _leaf(matrix(0, cols) if cols > 1 else noise((N, D, 1), key + 183, -0.5, 0.5) * g_)
         if flag:
-            off = _leaf(noise((N, D), key + 186, -0.5, 0.5))
+            off = _leaf(noise((N, D), key + 186, -0.5, 0.5) * g_)
             return Probe([m, off], lambda: f(m, offset=off), 0.3, labels=labels + [f"cols={cols}", "offset"])
         return Probe([m], lambda: f(m), 0.3, labels=labels + [f"cols={cols}"])
     if fn == "rotation_matrix":  # alias of euler_rotation_matrix
-        a = _leaf(noise((N, 1 if D == 2 else 3), key + 187, -3.0, 3.0))
+        a = _leaf(noise((N, 1 if D == 2 else 3), key + 187, -3.0, 3.0) * g_)
         kw = {} if D == 2 else dict(order=case["order"])
         return Probe([a], lambda: f(a, **kw), 1.0, labels=labels + [f"order={case['order']}"])
     if fn == "tensordot":
@@ -1964,6 +2179,8 @@ def build_core_probe(case) -> Probe:
         m = [abs(v) if (mode != "constant" and fn == "pad") else v for v in case["margin"]]
         if fn == "crop":
             m = [min(v, 1) for v in m]
+        if sp:  # no-op form: zero margins (the input is returned)
+            m = [0 for _ in m]
         kw = dict(mode=mode)
         if mode == "constant":
             kw["value"] = 0.5
@@ -1975,6 +2192,8 @@ def build_core_probe(case) -> Probe:
     if fn in ("center_crop", "center_pad"):
         x = _leaf(x)
         new = [max(1, n - 1 - i) for i, n in enumerate(size)] if fn == "center_crop" else [n + 1 + i for i, n in enumerate(size)]
+        if sp:  # no-op form: the size of the input
+            new = list(size)
         if fn == "center_crop":
             return Probe([x], lambda: f(x, new), 1.0, labels=labels)
         mode = case["mode"] if (D == 2 or case["mode"] != "reflect") else "replicate"
@@ -2010,7 +2229,8 @@ def build_core_probe(case) -> Probe:
         if fn == "gaussian_pyramid":
             kw["min_size"] = 2  # a grid axis reduced to one sample with align_corners=True is a Grid.downsample matter
             return Probe([x], lambda: f(x, 2 + opt % 2, **kw), 1.0, labels=labels + [f"sigma={case['sigma']}", f"ac={ac}"])
-        return Probe([x], lambda: f(x, 1, **kw), 1.0, labels=labels + [f"sigma={case['sigma']}", f"ac={ac}"])
+        levels = 0 if sp else 1  # special: the no-op form (zero levels)
+        return Probe([x], lambda: f(x, levels, **kw), 1.0, labels=labels + [f"sigma={case['sigma']}", f"ac={ac}"])
     if fn == "finite_differences":
         x = _leaf(x)
         kw = dict(mode=case["fd"], dilation=1 + case["opt2"] % 2, spacing=[1, 0.5][opt % 2])
@@ -2019,10 +2239,12 @@ def build_core_probe(case) -> Probe:
         x = _leaf(x)
         ins = [1.0 + 0.5 * i for i in range(D)] if flag else 1.0
         outs = [0.7 + 0.4 * i for i in range(D)] if flag else [0.7, 1.3][opt % 2]
+        if sp:  # no-op form: the output spacing is the input spacing
+            outs = ins
         return Probe([x], lambda: f(x, ins, outs), 1.0, labels=labels)
     if fn == "grid_resize":
         x = _leaf(x)
-        new = [n + 1 - 2 * (i % 2) for i, n in enumerate(size)]
+        new = list(size) if sp else [n + 1 - 2 * (i % 2) for i, n in enumerate(size)]  # special: no-op form (same size)
         mode = ["linear", "linear", "bicubic" if D == 2 else "linear", "area"][case["opt2"]]
         kw = dict(mode=mode) if mode == "area" else dict(mode=mode, align_corners=ac)
         return Probe([x], lambda: f(x, new, **kw), 1.0, labels=labels + [f"ac={ac}", f"mode={mode}"])
@@ -2050,7 +2272,7 @@ def build_core_probe(case) -> Probe:
         one = 2.0 / (min(size) - (1 if ac else 0))
         return Probe([g], lambda: f(m, g, threshold=0.4, align_corners=ac), one, labels=labels + [f"ac={ac}"], rule="f32")
     if fn == "jacobian_dict":
-        u = _leaf(noise((N, D) + shape, key + 196, -0.3, 0.3))
+        u = _leaf(noise((N, D) + shape, key + 196, -0.3, 0.3) * g_)
         mode = [None, "central", "forward", "bspline"][case["opt2"]]
         kw = dict(add_identity=flag) if mode is None else dict(mode=mode, add_identity=flag)
         return Probe([u], lambda: f(u, **kw), 0.3, labels=labels + [f"mode={mode}"])
@@ -2075,10 +2297,10 @@ def build_core_probe(case) -> Probe:
     if fn in ("transform_grid", "transform_points"):
         ts = case["tshape"]
         if ts == "flow":
-            t = noise((N, D) + shape, key + 199, -0.3, 0.3)
+            t = noise((N, D) + shape, key + 199, -0.3, 0.3) * g_
         else:
             cols = {"translation": 1, "affine": D, "homogeneous": D + 1}[ts]
-            t = matrix(0, cols) if cols > 1 else noise((N, D, 1), key + 183, -0.5, 0.5)
+            t = matrix(0, cols) if cols > 1 else noise((N, D, 1), key + 183, -0.5, 0.5) * g_
         if fn == "transform_grid":  # undeformed grid points of another size: the flow is resized, not sampled
             from deepali.core import Grid
 
@@ -2107,12 +2329,15 @@ def run_core(case):
 # =======================================================================================
 # facet 11: the remaining layers of deepali.modules (module wrappers of the functional forms)
 
+# special point: identity transformation tensor (w.r.t. the image; w.r.t. the transform only with a source grid of another size:
+# positions off the knots), exactly all-zero velocity field
+MODULE_SPECIAL = ("AlignImage.transform", "AlignImage.data", "TransformImage.transform", "TransformImage.data", "ExpFlow.inverse")
 MODULE_ENTRIES = ["AlignImage.transform", "AlignImage.data", "TransformImage.transform", "TransformImage.data", "BlurImage", "FilterImage",
                   "GaussianConv", "Curl", "Pad", "Narrow", "Reshape", "View", "LambdaLayer", "GetItem", "ExpFlow.inverse"]
 
 
 @st.composite
-def module_cases(draw, entry=None):
+def module_cases(draw, entry=None, point=None):
     entry = entry or draw(st.sampled_from(MODULE_ENTRIES))
     D = 3 if entry == "Curl" and draw(st.booleans()) else draw(gen.dims())
     case = {"entry": entry, "D": D, "N": draw(st.integers(1, 2)), "C": draw(st.integers(1, 2)), "key": draw(st.integers(0, 10 ** 6)),
@@ -2120,7 +2345,9 @@ def module_cases(draw, entry=None):
             "tshape": draw(st.sampled_from(["translation", "affine", "homogeneous", "flow"])), "centers": draw(st.booleans()),
             "opt": draw(st.integers(0, 5)), "flag": draw(st.booleans()), "sigma": draw(st.sampled_from([0.7, 1.0, 1.5])),
             "mode": draw(st.sampled_from(FD_MODES)), "steps": draw(st.integers(0, 4)), "ac": draw(st.booleans()),
-            "source": draw(st.sampled_from(["same", "same", "other"]))}
+            "source": draw(st.sampled_from(["same", "same", "other"])), "point": _draw_point(draw, entry in MODULE_SPECIAL, point)}
+    if _is_special(case) and entry.endswith(".transform"):
+        case["source"] = "other"
     if entry.split(".")[0] in ("AlignImage", "TransformImage"):
         case["grid"] = draw(small_grids(D))
         if case["source"] == "other":
@@ -2135,7 +2362,8 @@ def build_module_probe(case) -> Probe:
     entry, D, N, C, key, shape = case["entry"], case["D"], case["N"], case["C"], case["key"], tuple(case["shape"])
     name, _, wrt = entry.partition(".")
     opt, flag = case["opt"], case["flag"]
-    labels = [f"D={D}"]
+    labels = [f"D={D}", f"point={case.get('point', 'generic')}"]
+    g_ = 0.0 if (_is_special(case) and entry in MODULE_SPECIAL) else 1.0  # factor of the generic offsets from identity / zero
     if name in ("AlignImage", "TransformImage"):
         g = case["grid"]
         target = make_grid(g)
@@ -2153,11 +2381,11 @@ def build_module_probe(case) -> Probe:
         mod = getattr(M, name)(target, source, padding=case["padding"], align_centers=case["centers"]).double()
         img = noise((N, C) + tuple(source.shape), key + 211, 0.0, 1.0)
         if ts == "flow":
-            t = noise((N, D) + tuple(target.shape), key + 212, -0.2, 0.2)
+            t = noise((N, D) + tuple(target.shape), key + 212, -0.2, 0.2) * g_
         else:
             cols = {"translation": 1, "affine": D, "homogeneous": D + 1}[ts]
-            t = (torch.eye(D, cols, dtype=torch.float64).unsqueeze(0).repeat(N, 1, 1) + noise((N, D, cols), key + 213, -0.15, 0.15)
-                 if cols > 1 else noise((N, D, 1), key + 213, -0.2, 0.2))
+            t = (torch.eye(D, cols, dtype=torch.float64).unsqueeze(0).repeat(N, 1, 1) + noise((N, D, cols), key + 213, -0.15, 0.15) * g_
+                 if cols > 1 else noise((N, D, 1), key + 213, -0.2, 0.2) * g_)
         labels += [f"transform={ts}", f"pad={case['padding']}", f"source={case['source']}", f"centers={case['centers']}"]
         if wrt == "transform":  # moves interpolation positions: generic positions, protected by the reliability test
             t = _leaf(t)
@@ -2191,7 +2419,7 @@ def build_module_probe(case) -> Probe:
     if name == "ExpFlow":  # the inverse() / inv copies of the layer and the forward(inverse=True) argument
         base = M.ExpFlow(scale=[None, 0.5, 2.0][opt % 3], steps=case["steps"], align_corners=case["ac"])
         mod = base.inv if flag else base.inverse()
-        u = _leaf(noise((N, D) + shape, key + 217, -0.3, 0.3))
+        u = _leaf(noise((N, D) + shape, key + 217, -0.3, 0.3) * g_)
         inv_arg = opt > 2
         return Probe([u], lambda: mod(u, inverse=inv_arg), 0.3, stateful=True, labels=labels + [f"steps={case['steps']}"])
     xl = _leaf(x)
@@ -2260,7 +2488,7 @@ SOURCED_ENTRIES = ([f"{c}.{s}" for c in LINEAR + NONRIGID for s in ("callable", 
 
 
 @st.composite
-def sourced_cases(draw, entry=None):
+def sourced_cases(draw, entry=None, point=None):
     entry = entry or draw(st.sampled_from(SOURCED_ENTRIES))
     cls = entry.split(".")[0].split("[")[0]
     combo = COMBOS.get(entry[entry.index("[") + 1:-1]) if "[" in entry else None
@@ -2281,6 +2509,7 @@ def sourced_cases(draw, entry=None):
         "model": draw(st.sampled_from(GENERIC_MODELS)), "affine_model": draw(st.sampled_from(GENERIC_AFFINE)),
         "rotation_model": draw(st.sampled_from(["ZXZ", "XZX", "XYZ", "ZYX"])), "cps": draw(st.sampled_from([1, 2])),
         "flip": draw(st.booleans()), "padding": draw(st.sampled_from(["border", "zeros"])), "fresh": draw(st.booleans()),
+        "point": _draw_point(draw, True, point),
     }
     return case
 
@@ -2324,12 +2553,19 @@ def _raw_values(cls, kind, grid, case, key):
     import deepali.spatial as S
 
     D, N = grid.ndim, case["N"]
+    sp = _is_special(case)  # the initial point: identity matrix, zero field / offsets / angles, identity quaternion, unit factors
     if kind == "hom":
-        return torch.eye(D, D + 1, dtype=torch.float64).unsqueeze(0).repeat(N, 1, 1) + noise((N, D, D + 1), key + 7, -0.2, 0.2)
+        return (torch.eye(D, D + 1, dtype=torch.float64).unsqueeze(0).repeat(N, 1, 1)
+                + noise((N, D, D + 1), key + 7, -0.2, 0.2) * (0.0 if sp else 1.0))
     if kind == "field":
         shape = getattr(S, cls)(grid, params=None, **_nonrigid_kwargs(cls, case)).data_shape
-        return noise((N,) + tuple(shape), key + 8, -case["amp"], case["amp"])
-    return _elementary(kind, N, D, key, torch.float64).detach().clone()
+        return noise((N,) + tuple(shape), key + 8, -case["amp"], case["amp"]) * (0.0 if sp else 1.0)
+    values = _elementary(kind, N, D, key, torch.float64).detach().clone()
+    if sp:
+        values = torch.ones_like(values) if kind in ("iso", "aniso") else torch.zeros_like(values)
+        if kind == "quaternion":
+            values[:, 0] = 1.0
+    return values
 
 
 def build_sourced(cls, grid, case, source, key):
@@ -2347,9 +2583,11 @@ def build_sourced(cls, grid, case, source, key):
     if source == "callable":
         nets = [_ParamNet(r, key + 57 + i, 0.1 * (case["amp"] if kind == "field" else 1.0)) for i, (r, (_, kind)) in enumerate(zip(raws, spec))]
         t = T(grid, **{arg: net for (arg, _), net in zip(spec, nets)}, **kw).double()
-        c = _leaf(noise((N, 2), key + 59, -1.0, 1.0))
+        c = _leaf(noise((N, 2), key + 59, -1.0, 1.0) * (0.0 if _is_special(case) else 1.0))
         t.condition_(c)
         leaves = [p for net in nets for p in net.parameters()] + [c]
+        if _is_special(case):  # zero conditioning input: the prediction is exactly the initial point (the bias) and does not
+            leaves = [net.b for net in nets] + [c]  # depend on the weights W (legitimately constant in them)
         return t, leaves, (lambda: None)
     if source == "tensor":
         zs = [_leaf(r) for r in raws]
@@ -2381,7 +2619,7 @@ def build_sourced_probe(case) -> Probe:
     entry, g, D, N, key = case["entry"], case["grid"], case["D"], case["N"], case["key"]
     grid = make_grid(g)
     x = _points_for(case, grid, g)
-    labels = [f"D={D}", f"N={N}"]
+    labels = [f"D={D}", f"N={N}", f"point={case.get('point', 'generic')}"]
     head = entry.split(".")[0]
     # ---- containers with non-rigid / nested members
     if "[" in entry:
@@ -2412,7 +2650,7 @@ def build_sourced_probe(case) -> Probe:
         if method == "call":
             return Probe(leaves, lambda: (prepare(), t(x))[1], scale, stateful=True, labels=labels)
         if method == "disp":
-            return Probe(leaves, lambda: (prepare(), t.update().disp())[1], scale, stateful=True, labels=labels)
+            return Probe(leaves, lambda: (prepare(), t.update().disp())[1], scale, stateful=True, labels=labels, abs_mag=_disp_mag(case))
         return Probe(leaves, lambda: (prepare(), t.inverse()(x))[1], scale, stateful=True, labels=labels)
     # ---- linked inverse, created ONCE: its update() must fetch the current parameters of the transformation it is linked to
     if source == "linked":
@@ -2433,7 +2671,7 @@ def build_sourced_probe(case) -> Probe:
             return (i2 if cls in SVF else i2.update()).disp()
         return inv.update().disp() if method == "disp" else inv(x)
 
-    return Probe(leaves, ev, scale, stateful=True, labels=labels)
+    return Probe(leaves, ev, scale, stateful=True, labels=labels, abs_mag=_disp_mag(case))
 
 
 def _method_probe(t, params, method, case, grid, g, x, scale, labels, prepare=lambda: None):
@@ -2446,10 +2684,17 @@ def _method_probe(t, params, method, case, grid, g, x, scale, labels, prepare=la
     if method == "call_grid":
         xg = grid.coords(dtype=torch.float64).unsqueeze(0)
         return Probe(params, lambda: (prepare(), t(xg, grid=True))[1], scale, stateful=True, labels=labels)
+    # CompositeTransform.disp() (and tensor() of a composite with a non-rigid member) evaluates the members at grid.coords(),
+    # which are float32: a displacement field sampled at float32 points is computed in float32 (the forward value is a
+    # staircase at the 1e-7 level although the result is float64, and the float32 step would move sampling positions across
+    # interpolation knots): directions whose difference quotient does not survive a 512 times smaller step are dropped
+    sc = isinstance(t, S.CompositeTransform) and not t.linear
     if method == "disp":
-        return Probe(params, lambda: (prepare(), t.update().disp())[1], scale, stateful=True, labels=labels)
+        return Probe(params, lambda: (prepare(), t.update().disp())[1], scale, stateful=True, labels=labels, staircase=sc,
+                     abs_mag=_disp_mag(case))
     if method == "tensor":
-        return Probe(params, lambda: (prepare(), t.update().tensor())[1], scale, stateful=True, labels=labels)
+        return Probe(params, lambda: (prepare(), t.update().tensor())[1], scale, stateful=True, labels=labels, staircase=sc,
+                     abs_mag=_disp_mag(case))
     if method == "inverse_call":
         return Probe(params, lambda: (prepare(), t.inverse()(x))[1], scale, stateful=True, labels=labels)
     if method == "image":
@@ -2486,6 +2731,10 @@ def _generic_probe(case, grid, g, x, labels) -> Probe:
     if source == "callable":  # GenericSpatialTransform._data() has no 'shearing' entry: a callable cannot provide these parameters
         am = am.replace("K", "")
     flip = bool(case["flip"] and source == "callable")
+    if flip and _is_special(case) and D == 3:
+        # flip_grid_coords converts the predicted Euler angles to a matrix and back with euler_rotation_angles (acos): at zero
+        # angles that decomposition is singular (gimbal lock of ZXZ / XZX, d acos(1) = -inf -> NaN gradient): a genuine kink
+        flip = False
     rm = case["rotation_model"]
     if flip and rm not in ("ZXZ", "XZX"):
         rm = "ZXZ"  # euler_rotation_angles (used to flip the rotation) implements these orders only
@@ -2499,7 +2748,7 @@ def _generic_probe(case, grid, g, x, labels) -> Probe:
     for i, (n, m) in enumerate(proto.named_transforms()):
         kind = _GENERIC_KIND[n]
         if kind == "field":
-            raws[n] = noise((N,) + tuple(m.data_shape), key + 8, -case["amp"], case["amp"])
+            raws[n] = noise((N,) + tuple(m.data_shape), key + 8, -case["amp"], case["amp"]) * (0.0 if _is_special(case) else 1.0)
         else:
             raws[n] = _raw_values(type(m).__name__, kind, grid, case, key + 31 * i)
     nonrigid = [c for c in model.split(" o ") if c != "Affine"]
@@ -2525,7 +2774,8 @@ def _generic_probe(case, grid, g, x, labels) -> Probe:
                 t.update()
                 return inv.update().disp() if method == "disp" else inv(x)
 
-            return Probe(leaves, ev, scale, stateful=True, labels=labels)
+            sc = method == "disp" and not t.linear  # CompositeTransform.disp(): members evaluated at float32 grid points
+            return Probe(leaves, ev, scale, stateful=True, labels=labels, staircase=sc, abs_mag=_disp_mag(case))
     elif source == "dict":
         zs = {n: _leaf(r) for n, r in raws.items()}
         t = S.GenericSpatialTransform(grid, params=zs, config=config).double()
@@ -2534,9 +2784,11 @@ def _generic_probe(case, grid, g, x, labels) -> Probe:
         nets = {n: _ParamNet(raws[n], key + 57 + i, 0.1 * (case["amp"] if n == "nonrigid" else 1.0)) for i, n in enumerate(names)}
         net = _DictNet(nets).double()
         t = S.GenericSpatialTransform(grid, params=net, config=config).double()
-        c = _leaf(noise((N, 2), key + 59, -1.0, 1.0))
+        c = _leaf(noise((N, 2), key + 59, -1.0, 1.0) * (0.0 if _is_special(case) else 1.0))
         t.condition_(c)
         leaves = list(net.parameters()) + [c]
+        if _is_special(case):  # zero conditioning input: the prediction is the bias, legitimately constant in the weights W
+            leaves = [nt.b for nt in nets.values()] + [c]
     labels.append(f"m={method}")
     return _method_probe(t, leaves, method, case, grid, g, x, scale, labels)
 
@@ -2657,7 +2909,7 @@ def _entry_of(strategy_fn, entries):
     return st.sampled_from(entries).flatmap(lambda e: strategy_fn(entry=e))
 
 
-def _floor_cases(strategy_fn, entries, per_entry):
+def _floor_cases_at(strategy_fn, entries, per_entry, point):
     """Deterministic coverage floor: `per_entry` generated cases of every table entry (seed-independent: Hypothesis is
     seeded with a checksum of the entry names; entries are drawn in chunks to keep the generation cheap)."""
     import zlib
@@ -2670,10 +2922,10 @@ def _floor_cases(strategy_fn, entries, per_entry):
         chunk = entries[i:i + 8]
         got = []
 
-        @hypothesis.seed(zlib.crc32("|".join(chunk).encode()))
+        @hypothesis.seed(zlib.crc32("|".join(chunk + [point]).encode()))
         @settings(max_examples=per_entry, database=None, deadline=None, phases=[Phase.generate],
                   suppress_health_check=list(HealthCheck))
-        @given(st.tuples(*[strategy_fn(entry=e) for e in chunk]))
+        @given(st.tuples(*[strategy_fn(entry=e, point=point) for e in chunk]))
         def collect(cases):
             got.append(cases)
 
@@ -2683,11 +2935,18 @@ def _floor_cases(strategy_fn, entries, per_entry):
     return out
 
 
+def _floor_cases(strategy_fn, entries, per_entry):
+    """The generic floor plus the same number of cases of every entry at its special point (entries without one: none)."""
+    return (_floor_cases_at(strategy_fn, entries, per_entry, "generic")
+            + [c for c in _floor_cases_at(strategy_fn, entries, per_entry, "special") if c.get("point") == "special"])
+
+
 def _facet(name, run, strategy_fn, entries, what, quick, thorough, floor_quick=3, floor_thorough=12, quick_shards=2):
     return Facet(name, run, strategy=lambda: _entry_of(strategy_fn, entries),
                  enumerate=lambda tier: _floor_cases(strategy_fn, entries, floor_quick if tier == "quick" else floor_thorough),
                  rule=f"{what}; {len(entries)} table entries, each probed at least {floor_quick} (quick) / {floor_thorough} (thorough) "
-                      "times by a seed-independent floor plus the generated cases; non-trivial = some reliable direction with "
+                      "times at generic values and as often at its special point (zero / identity / initial input, where it has one) "
+                      "by a seed-independent floor, plus the generated cases (1 in 4 at the special point); non-trivial = some reliable direction with "
                       "|central difference| >= 1e-3 * sum|w*out| / scale",
                  quick=quick, thorough=thorough, shards=16, quick_shards=quick_shards)
 
@@ -2701,13 +2960,15 @@ ALL_ENTRIES = {"transforms": TRANSFORM_ENTRIES, "image_transformer": IT_ENTRIES,
 FACETS = [
     _facet("transforms", run_transforms, transform_cases, TRANSFORM_ENTRIES,
            "transform class x method (call, grid call, disp, disp on another grid, inverse call, points, PointSetTransformer) "
-           "w.r.t. its Parameters (generic non-identity values) or the points", quick=500, thorough=10000, floor_quick=2, quick_shards=4),
+           "w.r.t. its Parameters (generic values, and the initial values of a freshly constructed transformation) or the points",
+           quick=400, thorough=10000, floor_quick=2, quick_shards=4),
     _facet("image_transformer", run_image_transformer, image_transformer_cases, IT_ENTRIES,
-           "ImageTransformer of every transform class w.r.t. the transform Parameters and w.r.t. the image", quick=150, thorough=3000),
+           "ImageTransformer of every transform class w.r.t. the transform Parameters and w.r.t. the image", quick=120, thorough=3000),
     _facet("sampling", run_sampling, sampling_cases, SAMPLING_ENTRIES,
            "sampling functions/modules w.r.t. data, coordinates (>= 0.05 samples from knots/borders), flow", quick=300, thorough=5000),
     _facet("flow_ops", run_flow, flow_cases, FLOW_ENTRIES,
-           "expv/compose/logv/Lie bracket and spatial derivative operators w.r.t. fields", quick=240, thorough=4000),
+           "expv/compose/logv/Lie bracket and spatial derivative operators w.r.t. fields (generic, and exactly all-zero fields)",
+           quick=200, thorough=4000),
     _facet("bspline", run_bspline, bspline_cases, BSPLINE_ENTRIES,
            "cubic B-spline evaluation (both algorithms, derivatives, given kernels) and subdivision w.r.t. coefficients",
            quick=100, thorough=1500, floor_quick=6),
@@ -2718,12 +2979,12 @@ FACETS = [
            "similarity / overlap losses w.r.t. input and target (|x-y| >= 0.05 from L1/Huber kinks; explicit MI bins)",
            quick=350, thorough=5000, floor_quick=4),
     _facet("regularisers", run_regulariser, regulariser_cases, REG_ENTRIES,
-           "regularisation losses w.r.t. the vector field(s) (TV / p=1 on strictly monotone fields)", quick=180, thorough=3000,
+           "regularisation losses w.r.t. the vector field(s) (TV / p=1 on strictly monotone fields)", quick=150, thorough=3000,
            floor_quick=6),
     _facet("loss_modules", run_loss_module, loss_module_cases, LOSS_MODULE_ENTRIES,
            "loss module classes of deepali.losses (image, flow, bspline, params) called as modules (one instance, constructor "
            "arguments generated, masks to forward) w.r.t. source and target / field / parameters; PatchwiseImageLoss w.r.t. both "
-           "volumes", quick=200, thorough=3000, floor_quick=3),
+           "volumes", quick=160, thorough=3000, floor_quick=3),
     _facet("pointset_distances", run_pointset, pointset_cases, POINTSET_ENTRIES,
            "closest point / landmark distances w.r.t. the first and every later point set (unique nearest neighbours with margin, "
            "no zero distance), also with a later set produced by a transformation being optimised", quick=150, thorough=2500,
@@ -2731,7 +2992,7 @@ FACETS = [
     _facet("core_functional", run_core, core_cases, CORE_ENTRIES,
            "the remaining differentiable functions of deepali.core.functional.__all__ (tensor/math helpers, homogeneous "
            "transform helpers, pooling, convolution, cropping/padding, pyramids, resampling, normalisation with explicit bounds, "
-           "point maps) w.r.t. every tensor argument that can carry a gradient", quick=300, thorough=5000, floor_quick=6),
+           "point maps) w.r.t. every tensor argument that can carry a gradient", quick=250, thorough=5000, floor_quick=6),
     _facet("modules", run_module, module_cases, MODULE_ENTRIES,
            "layers of deepali.modules not covered elsewhere (AlignImage / TransformImage w.r.t. the transform tensor and the image, "
            "Blur/Filter/GaussianConv, Curl, Pad, Narrow, Reshape, View, LambdaLayer, GetItem, inverse copies of ExpFlow)",
@@ -2741,5 +3002,5 @@ FACETS = [
            "and its conditioning input), given as plain tensors (constructor / data_()), and its linked inverse created once "
            "(inverse(link=True) / .inv); SequentialTransform / MultiLevelTransform with non-rigid and nested members (call, grid "
            "call, disp, tensor, inverse, points, ImageTransformer); GenericSpatialTransform (8 models x 8 affine models; Parameters, "
-           "dict of tensors, callable returning a dict, linked inverse)", quick=300, thorough=6000, floor_quick=4, quick_shards=4),
+           "dict of tensors, callable returning a dict, linked inverse)", quick=250, thorough=6000, floor_quick=4, quick_shards=4),
 ]
